@@ -1,14 +1,44 @@
 /-
   Sipsp.Proofs.NaNumRun — property C10 at run level for the Contact `expires` and `q` parameters
-  (ParseNameAddrPVal).
+  (ParseNameAddrPVal): every number reported after a whole name-addr parse is the exact (or saturated) value of a
+  parameter text of the consumed input; never a wrapped or truncated number.  Soundness direction, ANY input (no
+  grammar assumption, any verdict), one call on a new object and resumed calls.
 
   How the model (and the Go code) converts a parameter value: nothing is accumulated byte by byte.  The automaton only
   records the four work offsets `pstart, pend, vstart, vend`; when a parameter ends (at `;`, at the `,` that ends the
   value, or at the end of the header) it calls `setFromParamVal`, which slices name and value out of the buffer and
-  converts the value text with `pUInt64Val` (`setExpires`, `setQ`).  So the run-level statement is: the
-  parameter-dependent fields of the returned object are the left fold (`accAll`) of `paramEffect` over a list of
-  parameter spans of the buffer, every span being a parameter as written (`NnWf`), and `paramEffect` is characterised
-  completely for `expires` and `q` (sections A, B).
+  converts the value text with `pUInt64Val` (`setExpires`, `setQ`).
+
+  Sections
+  A  `expires`, ANY value text (`nr_setExpires_any`): HasExpires is set and Expires = min (value of the LEADING DIGITS)
+     (2^32-1); all of the text when it is a digit string of any length.
+  C  `NrNum` (HasExpires, Expires, Q, ParamErr, ErrOffs), `nrEffect` = the effect of one parameter span on them, and the
+     frame theorem `nr_sfp_num`: `setFromParamVal` acts on these fields as `nrEffect`, reading nothing else.
+  C2 white-space runs of `skipLWS` (`nr_skipLWS_run`), `NrGap` = "white space, one `=`, white space".
+  D  the loop invariant `NrInv` (numeric fields = fold `nrAll` of `nrEffect` over recorded spans `NrSpanOk`; the work
+     offsets by automaton state), one lemma per `case` group of the loop body (`nr_stepA … nr_stepVE`, `nr_eoh` for
+     label endOfHdr), `nr_step`, `nr_runLoop` (via `runLoop_inv`), `nr_parse` (ParseNameAddrPVal, any header kind),
+     `nr_entry_new`.
+  E  `expires` from the fold: the last `expires` span decides (`nr_all_exp_last`, `NrOut.expires`).
+  F  `q`, ANY value text: `NrQOk` (accepted shapes and their value), `nr_setQ_cases` (accepted: Q := exact value;
+     otherwise Q untouched and ParamErr set), converse of the 64-bit parser spec `nr_pUInt64Val_ok`.
+  G  `q` from the fold (`nr_all_q_last`, `nr_all_q_bad`, `nr_all_perr_keep`, `NrOut.q`, `NrOut.q_flag`).
+  H  more bytes: `NrInv.app`, `nr_parse_resume`.
+  I  one call on a new object, any header kind: `nr_new_expires`, `nr_new_q`, `nr_new_q_le`;
+     Contact: `nr_contact_expires`, `nr_contact_q`, `nr_contact_q_flag`.
+  J  non-vacuity and tests.
+
+  What the statements do NOT say (model behaviour, same in the Go code, see the tests in J):
+  * the `expires` value text need not consist of digits: `expires=12abc` is reported as set with value 12 and nothing
+    is flagged, `expires=abc` and `expires="12"` give 0 — hence "leading digits";
+  * the accepted `q` shapes are wider than `0[.ddd]` / `1[.000]`: empty integer part (`.5`, `.`), leading zeros
+    (`00000001` = 1000);
+  * there is no "q is set" flag in the object: "unset" means Q keeps its previous value;
+  * the gap claim `NrGap` between name and value is made for header kinds with comma-separated values (Contact …):
+    in From / To the automaton skips commas in front of an unquoted value (`;tag=,abc` gives the tag `abc`);
+  * NOT proved here: that every `expires` / `q` parameter of the text is among the recorded spans (completeness: that is
+    the grammar-level theorem of C09, Proofs/NameAddrSpec), nor what the bytes of the name / value spans are beyond
+    their position and the gap.
 -/
 import Sipsp.Proofs.NameAddrSpec
 
@@ -17,84 +47,84 @@ namespace Sipsp
 /-! ### A. `expires`: any value text -/
 
 /-- is the byte a decimal digit (the test of `pUInt64Val`) -/
-def nnIsDig (c : UInt8) : Bool := !(c < 48 || c > 57)
+def nrIsDig (c : UInt8) : Bool := !(c < 48 || c > 57)
 
 /-- the leading digits of a text -/
-def nnDigPre (l : List UInt8) : List UInt8 := l.takeWhile nnIsDig
+def nrDigPre (l : List UInt8) : List UInt8 := l.takeWhile nrIsDig
 
-theorem nnIsDig_iff (c : UInt8) : nnIsDig c = true ↔ IsDigitB c := by
-  unfold nnIsDig IsDigitB
+theorem nrIsDig_iff (c : UInt8) : nrIsDig c = true ↔ IsDigitB c := by
+  unfold nrIsDig IsDigitB
   simp only [Bool.not_eq_true', Bool.or_eq_false_iff, decide_eq_false_iff_not, UInt8.lt_iff_toNat_lt, gt_iff_lt]
   have h48 : (48 : UInt8).toNat = 48 := rfl
   have h57 : (57 : UInt8).toNat = 57 := rfl
   rw [h48, h57]
   omega
 
-theorem nnDigPre_digits (l : List UInt8) : AllDigits (nnDigPre l) := by
+theorem nrDigPre_digits (l : List UInt8) : AllDigits (nrDigPre l) := by
   induction l with
   | nil => intro c hc; cases hc
   | cons a as ih =>
-    unfold nnDigPre at ih ⊢
+    unfold nrDigPre at ih ⊢
     rw [List.takeWhile_cons]
     split
     · rename_i ha
       intro c hc
       rcases List.mem_cons.1 hc with h | h
-      · rw [h]; exact (nnIsDig_iff a).1 ha
+      · rw [h]; exact (nrIsDig_iff a).1 ha
       · exact ih c h
     · intro c hc; cases hc
 
-theorem nnDigPre_of_digits (l : List UInt8) (h : AllDigits l) : nnDigPre l = l := by
+theorem nrDigPre_of_digits (l : List UInt8) (h : AllDigits l) : nrDigPre l = l := by
   induction l with
   | nil => rfl
   | cons a as ih =>
-    unfold nnDigPre at ih ⊢
-    rw [List.takeWhile_cons, if_pos ((nnIsDig_iff a).2 (h a List.mem_cons_self)),
+    unfold nrDigPre at ih ⊢
+    rw [List.takeWhile_cons, if_pos ((nrIsDig_iff a).2 (h a List.mem_cons_self)),
       ih (fun x hx => h x (List.mem_cons_of_mem _ hx))]
 
 /-- the number returned by `pUInt64Val` depends on the leading digits only -/
-theorem nn_pUInt64Aux_pre (l : List UInt8) (n : Nat) (e : Err) :
-    (pUInt64Aux l n e).1 = (pUInt64Aux (nnDigPre l) n e).1 := by
+theorem nr_pUInt64Aux_pre (l : List UInt8) (n : Nat) (e : Err) :
+    (pUInt64Aux l n e).1 = (pUInt64Aux (nrDigPre l) n e).1 := by
   induction l generalizing n e with
   | nil => rfl
   | cons c cs ih =>
-    by_cases hc : nnIsDig c = true
-    · have hp : nnDigPre (c :: cs) = c :: nnDigPre cs := by
-        unfold nnDigPre; rw [List.takeWhile_cons, if_pos hc]
-      have hd := (nnIsDig_iff c).1 hc
-      rw [hp, pUInt64Aux_cons c cs n e hd, pUInt64Aux_cons c (nnDigPre cs) n e hd]
+    by_cases hc : nrIsDig c = true
+    · have hp : nrDigPre (c :: cs) = c :: nrDigPre cs := by
+        unfold nrDigPre; rw [List.takeWhile_cons, if_pos hc]
+      have hd := (nrIsDig_iff c).1 hc
+      rw [hp, pUInt64Aux_cons c cs n e hd, pUInt64Aux_cons c (nrDigPre cs) n e hd]
       split
       · exact ih _ _
       · exact ih _ _
-    · have hp : nnDigPre (c :: cs) = [] := by
-        unfold nnDigPre; rw [List.takeWhile_cons, if_neg hc]
+    · have hp : nrDigPre (c :: cs) = [] := by
+        unfold nrDigPre; rw [List.takeWhile_cons, if_neg hc]
       have hc' : (c < 48 || c > 57) = true := by
         cases hx : (c < 48 || c > 57) with
         | true => rfl
-        | false => exact absurd (by unfold nnIsDig; rw [hx]; rfl) hc
+        | false => exact absurd (by unfold nrIsDig; rw [hx]; rfl) hc
       rw [hp]
       simp only [pUInt64Aux, hc', if_true]
 
 /-- **`expires` with ANY value text**: the has-expires flag is set and the number is the decimal value of the leading
     digits of the text (all of it when it is a digit string; the empty string counts 0), saturated at 2^32-1.  No
     length bound; never a wrapped value. -/
-theorem nn_setExpires_any (pf : PFromBody) (val : List UInt8) :
-    (setExpires pf val).hasExpires = true ∧ (setExpires pf val).expires = min (decOf (nnDigPre val)) 4294967295 := by
-  have hs := setExpires_spec pf (nnDigPre val) (nnDigPre_digits val)
+theorem nr_setExpires_any (pf : PFromBody) (val : List UInt8) :
+    (setExpires pf val).hasExpires = true ∧ (setExpires pf val).expires = min (decOf (nrDigPre val)) 4294967295 := by
+  have hs := setExpires_spec pf (nrDigPre val) (nrDigPre_digits val)
   refine ⟨rfl, ?_⟩
   rw [← hs.1]
   unfold setExpires pUInt64Val
   simp only
-  rw [nn_pUInt64Aux_pre val 0 .ok]
+  rw [nr_pUInt64Aux_pre val 0 .ok]
 
-theorem nn_setExpires_digits (pf : PFromBody) (val : List UInt8) (hd : AllDigits val) :
+theorem nr_setExpires_digits (pf : PFromBody) (val : List UInt8) (hd : AllDigits val) :
     (setExpires pf val).expires = min (decOf val) 4294967295 := by
-  rw [(nn_setExpires_any pf val).2, nnDigPre_of_digits val hd]
+  rw [(nr_setExpires_any pf val).2, nrDigPre_of_digits val hd]
 
 /-! ### C. the numeric fields and the effect of one parameter on them -/
 
 /-- the fields of the object that the `expires` and `q` parameters may change -/
-structure NnNum where
+structure NrNum where
   hasExpires : Bool := false
   expires : Nat := 0
   q : Nat := 0
@@ -102,41 +132,41 @@ structure NnNum where
   errOffs : Nat := 0
   deriving DecidableEq, Repr, Inhabited
 
-def PFromBody.nnNum (pf : PFromBody) : NnNum := ⟨pf.hasExpires, pf.expires, pf.q, pf.paramErr, pf.errOffs⟩
+def PFromBody.nrNum (pf : PFromBody) : NrNum := ⟨pf.hasExpires, pf.expires, pf.q, pf.paramErr, pf.errOffs⟩
 
 /-- an otherwise empty object carrying the numeric fields and the value offsets (all that `setQ` reads) -/
-def nnOfNum (m : NnNum) (vs ve : Nat) : PFromBody :=
+def nrOfNum (m : NrNum) (vs ve : Nat) : PFromBody :=
   { hasExpires := m.hasExpires, expires := m.expires, q := m.q, paramErr := m.paramErr, errOffs := m.errOffs, vstart := vs, vend := ve }
 
 /-- the `q` branch of `setFromParamVal` on the numeric fields (characterised in section E) -/
-def nnSetQ (m : NnNum) (vs ve : Nat) (val : List UInt8) : NnNum := (setQ (nnOfNum m vs ve) val).nnNum
+def nrSetQ (m : NrNum) (vs ve : Nat) (val : List UInt8) : NrNum := (setQ (nrOfNum m vs ve) val).nrNum
 
 /-- what a parameter with name `[ps, pe)` and value `[vs, ve)` does to the numeric fields -/
-def nnEffect (b : Buf) (ps pe vs ve : Nat) (m : NnNum) : NnNum :=
+def nrEffect (b : Buf) (ps pe vs ve : Nat) (m : NrNum) : NrNum :=
   if ps < pe ∧ vs < ve then
     if cmpEqL (b.extract ps pe) sExpires then
-      { m with hasExpires := true, expires := min (decOf (nnDigPre (b.extract vs ve).toList)) 4294967295 }
-    else if cmpEqL (b.extract ps pe) sQ then nnSetQ m vs ve (b.extract vs ve).toList
+      { m with hasExpires := true, expires := min (decOf (nrDigPre (b.extract vs ve).toList)) 4294967295 }
+    else if cmpEqL (b.extract ps pe) sQ then nrSetQ m vs ve (b.extract vs ve).toList
     else m
   else if ps < pe ∧ vs = ve then m
   else { m with paramErr := .valBad, errOffs := trunc16 vs }
 
-theorem NnNum.ext' {x y : NnNum} (h1 : x.hasExpires = y.hasExpires) (h2 : x.expires = y.expires) (h3 : x.q = y.q)
+theorem NrNum.ext' {x y : NrNum} (h1 : x.hasExpires = y.hasExpires) (h2 : x.expires = y.expires) (h3 : x.q = y.q)
     (h4 : x.paramErr = y.paramErr) (h5 : x.errOffs = y.errOffs) : x = y := by
   cases x; cases y; simp_all
 
-theorem nn_setQ_num (pf : PFromBody) (val : List UInt8) :
-    (setQ pf val).nnNum = nnSetQ pf.nnNum pf.vstart pf.vend val := by
-  obtain ⟨e1, e2, e3⟩ := setQ_congr pf (nnOfNum pf.nnNum pf.vstart pf.vend) val rfl rfl rfl rfl rfl
+theorem nr_setQ_num (pf : PFromBody) (val : List UInt8) :
+    (setQ pf val).nrNum = nrSetQ pf.nrNum pf.vstart pf.vend val := by
+  obtain ⟨e1, e2, e3⟩ := setQ_congr pf (nrOfNum pf.nrNum pf.vstart pf.vend) val rfl rfl rfl rfl rfl
   obtain ⟨_, _, o3, o4⟩ := setQ_other pf val
-  obtain ⟨_, _, p3, p4⟩ := setQ_other (nnOfNum pf.nnNum pf.vstart pf.vend) val
-  exact NnNum.ext' (o3.trans p3.symm) (o4.trans p4.symm) e1 e2 e3
+  obtain ⟨_, _, p3, p4⟩ := setQ_other (nrOfNum pf.nrNum pf.vstart pf.vend) val
+  exact NrNum.ext' (o3.trans p3.symm) (o4.trans p4.symm) e1 e2 e3
 
-/-- **frame**: the numeric fields after `setFromParamVal` are `nnEffect` of the numeric fields before (name and value
+/-- **frame**: the numeric fields after `setFromParamVal` are `nrEffect` of the numeric fields before (name and value
     inside the buffer, so that Go does not panic); nothing else of the object is read -/
-theorem nn_sfp_num (b : Buf) (pf : PFromBody) (h1 : pf.pend ≤ b.size) (h2 : pf.vend ≤ b.size) :
-    (setFromParamVal b pf).nnNum = nnEffect b pf.pstart pf.pend pf.vstart pf.vend pf.nnNum := by
-  unfold setFromParamVal nnEffect
+theorem nr_sfp_num (b : Buf) (pf : PFromBody) (h1 : pf.pend ≤ b.size) (h2 : pf.vend ≤ b.size) :
+    (setFromParamVal b pf).nrNum = nrEffect b pf.pstart pf.pend pf.vstart pf.vend pf.nrNum := by
+  unfold setFromParamVal nrEffect
   by_cases c1 : pf.pstart < pf.pend ∧ pf.vstart < pf.vend
   · have c1' : (decide (pf.pstart < pf.pend) && decide (pf.vstart < pf.vend)) = true := by simp [c1.1, c1.2]
     rw [if_pos c1', if_pos c1]
@@ -150,12 +180,12 @@ theorem nn_sfp_num (b : Buf) (pf : PFromBody) (h1 : pf.pend ≤ b.size) (h2 : pf
     · simp only [t1, Bool.false_eq_true, ↓reduceIte]
       by_cases t2 : cmpEqL (b.extract pf.pstart pf.pend) sExpires = true
       · simp only [t2, ↓reduceIte]
-        have he := nn_setExpires_any pf (b.extract pf.vstart pf.vend).toList
-        exact NnNum.ext' he.1 he.2 rfl rfl rfl
+        have he := nr_setExpires_any pf (b.extract pf.vstart pf.vend).toList
+        exact NrNum.ext' he.1 he.2 rfl rfl rfl
       · simp only [t2, Bool.false_eq_true, ↓reduceIte]
         by_cases t3 : cmpEqL (b.extract pf.pstart pf.pend) sQ = true
         · simp only [t3, ↓reduceIte]
-          exact nn_setQ_num pf _
+          exact nr_setQ_num pf _
         · simp only [t3, Bool.false_eq_true, ↓reduceIte]
           by_cases t4 : cmpEqL (b.extract pf.pstart pf.pend) sLr = true
           · simp only [t4, ↓reduceIte]; rfl
@@ -181,27 +211,27 @@ theorem nn_sfp_num (b : Buf) (pf : PFromBody) (h1 : pf.pend ≤ b.size) (h2 : pf
 
 /-! ### C2. white space runs; the gap between a parameter name and its value -/
 
-theorem nn_run_empty (P : UInt8 → Bool) (b : Buf) (i : Nat) : Run P b i i := fun k h1 h2 => by omega
+theorem nr_run_empty (P : UInt8 → Bool) (b : Buf) (i : Nat) : Run P b i i := fun k h1 h2 => by omega
 
-theorem nn_run_append {P : UInt8 → Bool} {b : Buf} {i j k : Nat} (h1 : Run P b i j) (h2 : Run P b j k) : Run P b i k := by
+theorem nr_run_append {P : UInt8 → Bool} {b : Buf} {i j k : Nat} (h1 : Run P b i j) (h2 : Run P b j k) : Run P b i k := by
   intro x hx1 hx2
   rcases Nat.lt_or_ge x j with h | h
   · exact h1 x hx1 h
   · exact h2 x h hx2
 
-theorem nn_run_one {P : UInt8 → Bool} {b : Buf} {i : Nat} {c : UInt8} (hb : b[i]? = some c) (hc : P c = true) :
+theorem nr_run_one {P : UInt8 → Bool} {b : Buf} {i : Nat} {c : UInt8} (hb : b[i]? = some c) (hc : P c = true) :
     Run P b i (i + 1) := by
   intro x hx1 hx2
   have : x = i := by omega
   subst this; exact ⟨c, hb, hc⟩
 
-theorem nn_run_app {P : UInt8 → Bool} {b : Buf} {i j : Nat} (h : Run P b i j) (s : Buf) : Run P (b ++ s) i j := by
+theorem nr_run_app {P : UInt8 → Bool} {b : Buf} {i j : Nat} (h : Run P b i j) (s : Buf) : Run P (b ++ s) i j := by
   intro x hx1 hx2
   obtain ⟨c, hc, hp⟩ := h x hx1 hx2
   exact ⟨c, get?_app hc, hp⟩
 
 /-- the bytes of a line end accepted by `skipCRLF` are CR / LF -/
-theorem nn_skipCRLF_run {b : Buf} {i n crl : Nat} (h : skipCRLF b i = (n, crl, .ok)) : Run isLWSch b i n := by
+theorem nr_skipCRLF_run {b : Buf} {i n crl : Nat} (h : skipCRLF b i = (n, crl, .ok)) : Run isLWSch b i n := by
   unfold skipCRLF at h
   cases h1 : b[i+1]? with
   | none =>
@@ -227,18 +257,18 @@ theorem nn_skipCRLF_run {b : Buf} {i n crl : Nat} (h : skipCRLF b i = (n, crl, .
           have hl1 : isLWSch c1 = true := by
             have : c1 = 10 := by simpa using hc1
             rw [this]; decide
-          exact nn_run_append (nn_run_one h0 hl0) (nn_run_one h1 hl1)
-        · cases h; exact nn_run_one h0 hl0
+          exact nr_run_append (nr_run_one h0 hl0) (nr_run_one h1 hl1)
+        · cases h; exact nr_run_one h0 hl0
       · split at h
         · rename_i hc0
           cases h
           have hl0 : isLWSch c0 = true := by
             have : c0 = 10 := by simpa using hc0
             rw [this]; decide
-          exact nn_run_one h0 hl0
+          exact nr_run_one h0 hl0
         · cases h
 
-theorem nn_isWS_lws {c : UInt8} (h : isWS c = true) : isLWSch c = true := by
+theorem nr_isWS_lws {c : UInt8} (h : isWS c = true) : isLWSch c = true := by
   unfold isWS at h; unfold isLWSch
   simp only [Bool.or_eq_true] at h ⊢
   rcases h with h | h
@@ -246,57 +276,57 @@ theorem nn_isWS_lws {c : UInt8} (h : isWS c = true) : isLWSch c = true := by
   · exact Or.inl (Or.inl (Or.inr h))
 
 /-- everything `skipLWS` skips before it stops with Ok is white space or line-end bytes -/
-theorem nn_skipLWS_run (b : Buf) (i flags : Nat) {n crl : Nat} (h : skipLWS b i flags = (n, crl, .ok)) :
+theorem nr_skipLWS_run (b : Buf) (i flags : Nat) {n crl : Nat} (h : skipLWS b i flags = (n, crl, .ok)) :
     Run isLWSch b i n := by
   fun_induction skipLWS b i flags with
   | case1 i hb => cases h
-  | case2 i c hb hws ih => exact nn_run_append (nn_run_one hb (nn_isWS_lws hws)) (ih h)
+  | case2 i c hb hws ih => exact nr_run_append (nr_run_one hb (nr_isWS_lws hws)) (ih h)
   | case3 i c hb hws hcr n' crl' hs hb2 hfl => cases h
   | case4 i c hb hws hcr n' crl' hs hb2 hfl => cases h
   | case5 i c hb hws hcr n' crl' hs c2 hb2 hws2 ih =>
-    exact nn_run_append (nn_run_append (nn_skipCRLF_run hs) (nn_run_one hb2 (nn_isWS_lws hws2))) (ih h)
+    exact nr_run_append (nr_run_append (nr_skipCRLF_run hs) (nr_run_one hb2 (nr_isWS_lws hws2))) (ih h)
   | case6 i c hb hws hcr n' crl' hs c2 hb2 hws2 => cases h
   | case7 i c hb hws hcr n' crl' e' hne hs => cases h; exact (hne rfl).elim
-  | case8 i c hb hws hcr => cases h; exact nn_run_empty _ _ _
+  | case8 i c hb hws hcr => cases h; exact nr_run_empty _ _ _
 
 /-- between the end of a parameter name and the start of its value: white space, one `=`, white space -/
-def NnGap (b : Buf) (pe vs : Nat) : Prop :=
+def NrGap (b : Buf) (pe vs : Nat) : Prop :=
   ∃ eq, pe ≤ eq ∧ eq < vs ∧ Run isLWSch b pe eq ∧ b[eq]? = some 61 ∧ Run isLWSch b (eq + 1) vs
 
-theorem nn_gap_eq {b : Buf} {pe i : Nat} {c : UInt8} (hr : Run isLWSch b pe i) (hpe : pe ≤ i) (hb : b[i]? = some c)
-    (hc : (c == 61) = true) : NnGap b pe (i + 1) := by
+theorem nr_gap_eq {b : Buf} {pe i : Nat} {c : UInt8} (hr : Run isLWSch b pe i) (hpe : pe ≤ i) (hb : b[i]? = some c)
+    (hc : (c == 61) = true) : NrGap b pe (i + 1) := by
   have : c = 61 := by simpa using hc
   subst this
-  exact ⟨i, hpe, by omega, hr, hb, nn_run_empty _ _ _⟩
+  exact ⟨i, hpe, by omega, hr, hb, nr_run_empty _ _ _⟩
 
-theorem NnGap.extend {b : Buf} {pe i n : Nat} (h : NnGap b pe i) (hr : Run isLWSch b i n) (hin : i ≤ n) : NnGap b pe n := by
+theorem NrGap.extend {b : Buf} {pe i n : Nat} (h : NrGap b pe i) (hr : Run isLWSch b i n) (hin : i ≤ n) : NrGap b pe n := by
   obtain ⟨eq, h1, h2, h3, h4, h5⟩ := h
-  exact ⟨eq, h1, by omega, h3, h4, nn_run_append h5 hr⟩
+  exact ⟨eq, h1, by omega, h3, h4, nr_run_append h5 hr⟩
 
-theorem NnGap.app {b : Buf} {pe vs : Nat} (h : NnGap b pe vs) (s : Buf) : NnGap (b ++ s) pe vs := by
+theorem NrGap.app {b : Buf} {pe vs : Nat} (h : NrGap b pe vs) (s : Buf) : NrGap (b ++ s) pe vs := by
   obtain ⟨eq, h1, h2, h3, h4, h5⟩ := h
-  exact ⟨eq, h1, h2, nn_run_app h3 s, get?_app h4, nn_run_app h5 s⟩
+  exact ⟨eq, h1, h2, nr_run_app h3 s, get?_app h4, nr_run_app h5 s⟩
 
 /-- the gap claim is made for the header kinds whose values are separated by `,` (Contact, …): in the other kinds
     (From, To, …) the automaton silently skips commas in front of an unquoted parameter value -/
-def nnGapM (mv : Bool) (b : Buf) (pe vs : Nat) : Prop := match mv with | true => NnGap b pe vs | false => True
+def nrGapM (mv : Bool) (b : Buf) (pe vs : Nat) : Prop := match mv with | true => NrGap b pe vs | false => True
 
-def nnEqM (mv : Bool) (vs i : Nat) : Prop := match mv with | true => vs = i | false => True
+def nrEqM (mv : Bool) (vs i : Nat) : Prop := match mv with | true => vs = i | false => True
 
-theorem nnGapM.app {mv : Bool} {b : Buf} {pe vs : Nat} (h : nnGapM mv b pe vs) (s : Buf) : nnGapM mv (b ++ s) pe vs := by
+theorem nrGapM.app {mv : Bool} {b : Buf} {pe vs : Nat} (h : nrGapM mv b pe vs) (s : Buf) : nrGapM mv (b ++ s) pe vs := by
   cases mv
   · trivial
-  · exact NnGap.app h s
+  · exact NrGap.app h s
 
-/-! ### D. the loop invariant: the numeric fields are the fold of `nnEffect` over recorded spans -/
+/-! ### D. the loop invariant: the numeric fields are the fold of `nrEffect` over recorded spans -/
 
 /-- a recorded parameter span: the name `[ps, pe)` is not empty and starts at or after `o`; either there is no value
     text (`vs = ve`) or the value `[vs, ve)` is not empty, lies after the name, and between the two there is nothing but
     white space and exactly one `=`; everything ends at or before `lim` -/
-def NnSpanOk (mv : Bool) (b : Buf) (o lim : Nat) (x : PSpan) : Prop :=
-  o ≤ x.ps ∧ x.ps < x.pe ∧ x.pe ≤ lim ∧ (x.vs = x.ve ∨ (x.pe < x.vs ∧ x.vs < x.ve ∧ x.ve ≤ lim ∧ nnGapM mv b x.pe x.vs))
+def NrSpanOk (mv : Bool) (b : Buf) (o lim : Nat) (x : PSpan) : Prop :=
+  o ≤ x.ps ∧ x.ps < x.pe ∧ x.pe ≤ lim ∧ (x.vs = x.ve ∨ (x.pe < x.vs ∧ x.vs < x.ve ∧ x.ve ≤ lim ∧ nrGapM mv b x.pe x.vs))
 
-theorem NnSpanOk.mono {mv : Bool} {b : Buf} {o i j : Nat} {x : PSpan} (h : NnSpanOk mv b o i x) (hij : i ≤ j) : NnSpanOk mv b o j x := by
+theorem NrSpanOk.mono {mv : Bool} {b : Buf} {o i j : Nat} {x : PSpan} (h : NrSpanOk mv b o i x) (hij : i ≤ j) : NrSpanOk mv b o j x := by
   obtain ⟨h1, h2, h3, h4⟩ := h
   refine ⟨h1, h2, by omega, ?_⟩
   rcases h4 with h4 | h4
@@ -306,56 +336,56 @@ theorem NnSpanOk.mono {mv : Bool} {b : Buf} {o i j : Nat} {x : PSpan} (h : NnSpa
 variable {mv : Bool}
 
 /-- the numeric fields after all parameters of the list, in order -/
-def nnAll (b : Buf) (L : List PSpan) (m : NnNum) : NnNum := L.foldl (fun m x => nnEffect b x.ps x.pe x.vs x.ve m) m
+def nrAll (b : Buf) (L : List PSpan) (m : NrNum) : NrNum := L.foldl (fun m x => nrEffect b x.ps x.pe x.vs x.ve m) m
 
 /-- the numeric fields `m` are what the parameters at the spans `L` (in order) do to `m0` -/
-def NnAcc (mv : Bool) (b : Buf) (m0 : NnNum) (o lim : Nat) (m : NnNum) : Prop :=
-  ∃ L : List PSpan, m = nnAll b L m0 ∧ ∀ x ∈ L, NnSpanOk mv b o lim x
+def NrAcc (mv : Bool) (b : Buf) (m0 : NrNum) (o lim : Nat) (m : NrNum) : Prop :=
+  ∃ L : List PSpan, m = nrAll b L m0 ∧ ∀ x ∈ L, NrSpanOk mv b o lim x
 
-theorem NnAcc.mono {b : Buf} {m0 m : NnNum} {o i j : Nat} (h : NnAcc mv b m0 o i m) (hij : i ≤ j) : NnAcc mv b m0 o j m := by
+theorem NrAcc.mono {b : Buf} {m0 m : NrNum} {o i j : Nat} (h : NrAcc mv b m0 o i m) (hij : i ≤ j) : NrAcc mv b m0 o j m := by
   obtain ⟨L, h1, h2⟩ := h
   exact ⟨L, h1, fun x hx => (h2 x hx).mono hij⟩
 
-theorem nn_all_snoc (b : Buf) (L : List PSpan) (x : PSpan) (m : NnNum) :
-    nnAll b (L ++ [x]) m = nnEffect b x.ps x.pe x.vs x.ve (nnAll b L m) := by
-  unfold nnAll
+theorem nr_all_snoc (b : Buf) (L : List PSpan) (x : PSpan) (m : NrNum) :
+    nrAll b (L ++ [x]) m = nrEffect b x.ps x.pe x.vs x.ve (nrAll b L m) := by
+  unfold nrAll
   rw [List.foldl_append]
   rfl
 
-theorem NnAcc.snoc {b : Buf} {m0 m : NnNum} {o i : Nat} (h : NnAcc mv b m0 o i m) (x : PSpan) (hx : NnSpanOk mv b o i x) :
-    NnAcc mv b m0 o i (nnEffect b x.ps x.pe x.vs x.ve m) := by
+theorem NrAcc.snoc {b : Buf} {m0 m : NrNum} {o i : Nat} (h : NrAcc mv b m0 o i m) (x : PSpan) (hx : NrSpanOk mv b o i x) :
+    NrAcc mv b m0 o i (nrEffect b x.ps x.pe x.vs x.ve m) := by
   obtain ⟨L, h1, h2⟩ := h
-  refine ⟨L ++ [x], by rw [nn_all_snoc, h1], ?_⟩
+  refine ⟨L ++ [x], by rw [nr_all_snoc, h1], ?_⟩
   intro y hy
   rcases List.mem_append.1 hy with hy | hy
   · exact h2 y hy
   · rw [List.mem_singleton.1 hy]; exact hx
 
 /-- what a returned object satisfies -/
-def NnOut (mv : Bool) (b : Buf) (m0 : NnNum) (o lim : Nat) (pf : PFromBody) : Prop :=
-  lim ≤ b.size ∧ NnAcc mv b m0 o lim pf.nnNum
+def NrOut (mv : Bool) (b : Buf) (m0 : NrNum) (o lim : Nat) (pf : PFromBody) : Prop :=
+  lim ≤ b.size ∧ NrAcc mv b m0 o lim pf.nrNum
 
-theorem NnOut.mono {b : Buf} {m0 : NnNum} {o i j : Nat} {pf : PFromBody} (h : NnOut mv b m0 o i pf) (hij : i ≤ j)
-    (hj : j ≤ b.size) : NnOut mv b m0 o j pf := ⟨hj, h.2.mono hij⟩
+theorem NrOut.mono {b : Buf} {m0 : NrNum} {o i j : Nat} {pf : PFromBody} (h : NrOut mv b m0 o i pf) (hij : i ≤ j)
+    (hj : j ≤ b.size) : NrOut mv b m0 o j pf := ⟨hj, h.2.mono hij⟩
 
 /-- the four work offsets, by automaton state -/
-def nnPend (mv : Bool) (b : Buf) (o i : Nat) (st : FBState) (ps pe vs ve : Nat) : Prop :=
+def nrPend (mv : Bool) (b : Buf) (o i : Nat) (st : FBState) (ps pe vs ve : Nat) : Prop :=
   match st with
   | .paramName | .possibleParamName => o ≤ ps ∧ ps < i ∧ vs = ve
   | .paramNameEnd | .possibleParamNameEnd => o ≤ ps ∧ ps < pe ∧ vs = ve ∧ Run isLWSch b pe i
-  | .newParamVal | .newPossibleVal => o ≤ ps ∧ ps < pe ∧ pe < vs ∧ vs ≤ i ∧ nnEqM mv vs i ∧ nnGapM mv b pe i
-  | .paramVal | .possibleVal | .quotedVal | .quotedPossibleVal => o ≤ ps ∧ ps < pe ∧ pe < vs ∧ vs < i ∧ nnGapM mv b pe vs
-  | .paramValEnd | .possibleValEnd => o ≤ ps ∧ ps < pe ∧ pe < vs ∧ vs < ve ∧ nnGapM mv b pe vs
+  | .newParamVal | .newPossibleVal => o ≤ ps ∧ ps < pe ∧ pe < vs ∧ vs ≤ i ∧ nrEqM mv vs i ∧ nrGapM mv b pe i
+  | .paramVal | .possibleVal | .quotedVal | .quotedPossibleVal => o ≤ ps ∧ ps < pe ∧ pe < vs ∧ vs < i ∧ nrGapM mv b pe vs
+  | .paramValEnd | .possibleValEnd => o ≤ ps ∧ ps < pe ∧ pe < vs ∧ vs < ve ∧ nrGapM mv b pe vs
   | _ => pe ≤ ps ∧ vs = ve
 
 /-- the states whose facts mention the current position exactly (the scan stands right after white space) -/
-def nnAtPos (st : FBState) : Prop :=
+def nrAtPos (st : FBState) : Prop :=
   st = .paramNameEnd ∨ st = .possibleParamNameEnd ∨ st = .newParamVal ∨ st = .newPossibleVal
 
-theorem nnPend_mono {b : Buf} {o i j : Nat} {st : FBState} {ps pe vs ve : Nat} (h : nnPend mv b o i st ps pe vs ve) (hij : i ≤ j)
-    (hst : ¬ nnAtPos st) : nnPend mv b o j st ps pe vs ve := by
-  unfold nnAtPos at hst
-  cases st <;> simp only [nnPend] at h ⊢ <;>
+theorem nrPend_mono {b : Buf} {o i j : Nat} {st : FBState} {ps pe vs ve : Nat} (h : nrPend mv b o i st ps pe vs ve) (hij : i ≤ j)
+    (hst : ¬ nrAtPos st) : nrPend mv b o j st ps pe vs ve := by
+  unfold nrAtPos at hst
+  cases st <;> simp only [nrPend] at h ⊢ <;>
     first
       | omega
       | exact absurd (Or.inl rfl) hst
@@ -365,131 +395,131 @@ theorem nnPend_mono {b : Buf} {o i j : Nat} {st : FBState} {ps pe vs ve : Nat} (
       | exact ⟨h.1, h.2.1, h.2.2.1, by have := h.2.2.2.1; omega, h.2.2.2.2⟩
 
 /-- **the loop invariant** -/
-structure NnInv (mv : Bool) (b : Buf) (m0 : NnNum) (o i : Nat) (pf : PFromBody) : Prop where
+structure NrInv (mv : Bool) (b : Buf) (m0 : NrNum) (o i : Nat) (pf : PFromBody) : Prop where
   oi : o ≤ i
   hi : i ≤ b.size
   pend : pf.pend ≤ i
   vend : pf.vend ≤ i
-  pk : nnPend mv b o i pf.state pf.pstart pf.pend pf.vstart pf.vend
-  acc : NnAcc mv b m0 o i pf.nnNum
+  pk : nrPend mv b o i pf.state pf.pstart pf.pend pf.vstart pf.vend
+  acc : NrAcc mv b m0 o i pf.nrNum
 
-theorem NnInv.mono {b : Buf} {m0 : NnNum} {o i j : Nat} {pf : PFromBody} (h : NnInv mv b m0 o i pf) (hij : i ≤ j)
-    (hj : j ≤ b.size) (hst : ¬ nnAtPos pf.state) : NnInv mv b m0 o j pf :=
-  ⟨by have := h.oi; omega, hj, by have := h.pend; omega, by have := h.vend; omega, nnPend_mono h.pk hij hst, h.acc.mono hij⟩
+theorem NrInv.mono {b : Buf} {m0 : NrNum} {o i j : Nat} {pf : PFromBody} (h : NrInv mv b m0 o i pf) (hij : i ≤ j)
+    (hj : j ≤ b.size) (hst : ¬ nrAtPos pf.state) : NrInv mv b m0 o j pf :=
+  ⟨by have := h.oi; omega, hj, by have := h.pend; omega, by have := h.vend; omega, nrPend_mono h.pk hij hst, h.acc.mono hij⟩
 
-theorem NnInv.out {b : Buf} {m0 : NnNum} {o i : Nat} {pf : PFromBody} (h : NnInv mv b m0 o i pf) : NnOut mv b m0 o i pf :=
+theorem NrInv.out {b : Buf} {m0 : NrNum} {o i : Nat} {pf : PFromBody} (h : NrInv mv b m0 o i pf) : NrOut mv b m0 o i pf :=
   ⟨h.hi, h.acc⟩
 
 /-- the invariant only looks at the state, the work offsets and the parameter-dependent fields -/
-theorem NnInv.congr {b : Buf} {m0 : NnNum} {o i : Nat} {pf pf' : PFromBody} (h : NnInv mv b m0 o i pf)
+theorem NrInv.congr {b : Buf} {m0 : NrNum} {o i : Nat} {pf pf' : PFromBody} (h : NrInv mv b m0 o i pf)
     (h1 : pf'.state = pf.state) (h2 : pf'.pstart = pf.pstart) (h3 : pf'.pend = pf.pend) (h4 : pf'.vstart = pf.vstart)
-    (h5 : pf'.vend = pf.vend) (h6 : pf'.nnNum = pf.nnNum) : NnInv mv b m0 o i pf' :=
+    (h5 : pf'.vend = pf.vend) (h6 : pf'.nrNum = pf.nrNum) : NrInv mv b m0 o i pf' :=
   ⟨h.oi, h.hi, by rw [h3]; exact h.pend, by rw [h5]; exact h.vend, by rw [h1, h2, h3, h4, h5]; exact h.pk,
    by rw [h6]; exact h.acc⟩
 
-theorem NnOut.congr {b : Buf} {m0 : NnNum} {o i : Nat} {pf pf' : PFromBody} (h : NnOut mv b m0 o i pf)
-    (h6 : pf'.nnNum = pf.nnNum) : NnOut mv b m0 o i pf' := ⟨h.1, by rw [h6]; exact h.2⟩
+theorem NrOut.congr {b : Buf} {m0 : NrNum} {o i : Nat} {pf pf' : PFromBody} (h : NrOut mv b m0 o i pf)
+    (h6 : pf'.nrNum = pf.nrNum) : NrOut mv b m0 o i pf' := ⟨h.1, by rw [h6]; exact h.2⟩
 
 /-! #### `setFromParamVal` under the invariant -/
 
-theorem nn_sfp_acc (b : Buf) (pf : PFromBody) (h1 : pf.pend ≤ b.size) (h2 : pf.vend ≤ b.size) :
-    (setFromParamVal b pf).nnNum = nnEffect b pf.pstart pf.pend pf.vstart pf.vend pf.nnNum ∧
+theorem nr_sfp_acc (b : Buf) (pf : PFromBody) (h1 : pf.pend ≤ b.size) (h2 : pf.vend ≤ b.size) :
+    (setFromParamVal b pf).nrNum = nrEffect b pf.pstart pf.pend pf.vstart pf.vend pf.nrNum ∧
     (setFromParamVal b pf).state = pf.state ∧ (setFromParamVal b pf).pstart = 0 ∧ (setFromParamVal b pf).pend = 0 ∧
     (setFromParamVal b pf).vstart = 0 ∧ (setFromParamVal b pf).vend = 0 := by
-  refine ⟨nn_sfp_num b pf h1 h2, ?_⟩
+  refine ⟨nr_sfp_num b pf h1 h2, ?_⟩
   rw [setFromParamVal_eq b pf h1 h2]
   exact ⟨rfl, rfl, rfl, rfl, rfl⟩
 
 /-- storing a parameter: the span joins the list -/
-theorem nn_sfp_out {b : Buf} {m0 : NnNum} {o i : Nat} (pf : PFromBody) (hi : i ≤ b.size) (hpe : pf.pend ≤ i)
-    (hve : pf.vend ≤ i) (hsp : NnSpanOk mv b o i ⟨pf.pstart, pf.pend, pf.vstart, pf.vend⟩) (hacc : NnAcc mv b m0 o i pf.nnNum) :
-    NnOut mv b m0 o i (setFromParamVal b pf) := by
-  have h := nn_sfp_acc b pf (by omega) (by omega)
+theorem nr_sfp_out {b : Buf} {m0 : NrNum} {o i : Nat} (pf : PFromBody) (hi : i ≤ b.size) (hpe : pf.pend ≤ i)
+    (hve : pf.vend ≤ i) (hsp : NrSpanOk mv b o i ⟨pf.pstart, pf.pend, pf.vstart, pf.vend⟩) (hacc : NrAcc mv b m0 o i pf.nrNum) :
+    NrOut mv b m0 o i (setFromParamVal b pf) := by
+  have h := nr_sfp_acc b pf (by omega) (by omega)
   refine ⟨hi, ?_⟩
   rw [h.1]
   exact hacc.snoc ⟨pf.pstart, pf.pend, pf.vstart, pf.vend⟩ hsp
 
-theorem nn_sfp_inv {b : Buf} {m0 : NnNum} {o i j : Nat} (pf : PFromBody) (hoi : o ≤ i) (hi : i ≤ b.size) (hpe : pf.pend ≤ i)
-    (hve : pf.vend ≤ i) (hsp : NnSpanOk mv b o i ⟨pf.pstart, pf.pend, pf.vstart, pf.vend⟩) (hacc : NnAcc mv b m0 o i pf.nnNum)
+theorem nr_sfp_inv {b : Buf} {m0 : NrNum} {o i j : Nat} (pf : PFromBody) (hoi : o ≤ i) (hi : i ≤ b.size) (hpe : pf.pend ≤ i)
+    (hve : pf.vend ≤ i) (hsp : NrSpanOk mv b o i ⟨pf.pstart, pf.pend, pf.vstart, pf.vend⟩) (hacc : NrAcc mv b m0 o i pf.nrNum)
     (hst : pf.state = .newParam ∨ pf.state = .newPossibleParam) (hij : i ≤ j) (hj : j ≤ b.size) :
-    NnInv mv b m0 o j (setFromParamVal b pf) := by
-  have h := nn_sfp_acc b pf (by omega) (by omega)
-  have ho := nn_sfp_out pf hi hpe hve hsp hacc
+    NrInv mv b m0 o j (setFromParamVal b pf) := by
+  have h := nr_sfp_acc b pf (by omega) (by omega)
+  have ho := nr_sfp_out pf hi hpe hve hsp hacc
   refine ⟨by omega, hj, by rw [h.2.2.2.1]; omega, by rw [h.2.2.2.2.2]; omega, ?_, ho.2.mono hij⟩
   rw [h.2.1, h.2.2.1, h.2.2.2.1, h.2.2.2.2.1, h.2.2.2.2.2]
   rcases hst with g | g <;> rw [g] <;> exact ⟨Nat.le_refl _, rfl⟩
 
 /-! #### the end-of-value code -/
 
-def nnPf1 (pf : PFromBody) (e : Nat) : PFromBody :=
+def nrPf1 (pf : PFromBody) (e : Nat) : PFromBody :=
   if pf.state == .paramName || pf.state == .possibleParamName then { pf with pend := e } else pf
 
-def nnPf2 (b : Buf) (pf : PFromBody) (e : Nat) : PFromBody :=
-  if (nnPf1 pf e).pstart < (nnPf1 pf e).pend then setFromParamVal b (nnPf1 pf e) else nnPf1 pf e
+def nrPf2 (b : Buf) (pf : PFromBody) (e : Nat) : PFromBody :=
+  if (nrPf1 pf e).pstart < (nrPf1 pf e).pend then setFromParamVal b (nrPf1 pf e) else nrPf1 pf e
 
-theorem nn_eohPN_acc (b : Buf) (pf : PFromBody) (e : Nat) : (naEOHParamName b pf e).nnNum = (nnPf2 b pf e).nnNum := by
-  show ((if (nnPf2 b pf e).params.offs != 0 then (nnPf2 b pf e).extParams e else nnPf2 b pf e).extV e).nnNum = _
-  generalize nnPf2 b pf e = pf2
+theorem nr_eohPN_acc (b : Buf) (pf : PFromBody) (e : Nat) : (naEOHParamName b pf e).nrNum = (nrPf2 b pf e).nrNum := by
+  show ((if (nrPf2 b pf e).params.offs != 0 then (nrPf2 b pf e).extParams e else nrPf2 b pf e).extV e).nrNum = _
+  generalize nrPf2 b pf e = pf2
   split <;> rfl
 
 /-- parameter-name states at the end of the value -/
-theorem nn_eohPN {b : Buf} {m0 : NnNum} {o i : Nat} {pf : PFromBody} (hI : NnInv mv b m0 o i pf) (e : Nat)
+theorem nr_eohPN {b : Buf} {m0 : NrNum} {o i : Nat} {pf : PFromBody} (hI : NrInv mv b m0 o i pf) (e : Nat)
     (hst : pf.state = .newParam ∨ pf.state = .newPossibleParam ∨ ((pf.state = .paramName ∨ pf.state = .possibleParamName) ∧ e = i) ∨
       pf.state = .paramNameEnd ∨ pf.state = .possibleParamNameEnd) :
-    NnOut mv b m0 o i (naEOHParamName b pf e) := by
+    NrOut mv b m0 o i (naEOHParamName b pf e) := by
   obtain ⟨h1, h2, h3, h4, h5, h6⟩ := hI
-  refine NnOut.congr (pf := nnPf2 b pf e) ?_ (nn_eohPN_acc b pf e)
-  unfold nnPf2 nnPf1
-  rcases hst with g | g | ⟨g | g, rfl⟩ | g | g <;> simp +decide only [g, ↓reduceIte] <;> simp only [g, nnPend] at h5
+  refine NrOut.congr (pf := nrPf2 b pf e) ?_ (nr_eohPN_acc b pf e)
+  unfold nrPf2 nrPf1
+  rcases hst with g | g | ⟨g | g, rfl⟩ | g | g <;> simp +decide only [g, ↓reduceIte] <;> simp only [g, nrPend] at h5
   · rw [if_neg (by omega)]; exact ⟨h2, h6⟩
   · rw [if_neg (by omega)]; exact ⟨h2, h6⟩
   · rw [if_pos (by show pf.pstart < e; omega)]
-    exact nn_sfp_out _ h2 (Nat.le_refl _) h4 ⟨h5.1, h5.2.1, Nat.le_refl _, Or.inl h5.2.2⟩ h6
+    exact nr_sfp_out _ h2 (Nat.le_refl _) h4 ⟨h5.1, h5.2.1, Nat.le_refl _, Or.inl h5.2.2⟩ h6
   · rw [if_pos (by show pf.pstart < e; omega)]
-    exact nn_sfp_out _ h2 (Nat.le_refl _) h4 ⟨h5.1, h5.2.1, Nat.le_refl _, Or.inl h5.2.2⟩ h6
+    exact nr_sfp_out _ h2 (Nat.le_refl _) h4 ⟨h5.1, h5.2.1, Nat.le_refl _, Or.inl h5.2.2⟩ h6
   · rw [if_pos h5.2.1]
-    exact nn_sfp_out _ h2 h3 h4 ⟨h5.1, h5.2.1, h3, Or.inl h5.2.2.1⟩ h6
+    exact nr_sfp_out _ h2 h3 h4 ⟨h5.1, h5.2.1, h3, Or.inl h5.2.2.1⟩ h6
   · rw [if_pos h5.2.1]
-    exact nn_sfp_out _ h2 h3 h4 ⟨h5.1, h5.2.1, h3, Or.inl h5.2.2.1⟩ h6
+    exact nr_sfp_out _ h2 h3 h4 ⟨h5.1, h5.2.1, h3, Or.inl h5.2.2.1⟩ h6
 
 /-- value states at the end of the value (the value ends at the current position) -/
-theorem nn_eohPV {b : Buf} {m0 : NnNum} {o i : Nat} {pf : PFromBody} (hI : NnInv mv b m0 o i pf)
-    (hst : pf.state = .paramVal ∨ pf.state = .possibleVal) : NnOut mv b m0 o i (naEOHVal b pf i) := by
+theorem nr_eohPV {b : Buf} {m0 : NrNum} {o i : Nat} {pf : PFromBody} (hI : NrInv mv b m0 o i pf)
+    (hst : pf.state = .paramVal ∨ pf.state = .possibleVal) : NrOut mv b m0 o i (naEOHVal b pf i) := by
   obtain ⟨h1, h2, h3, h4, h5, h6⟩ := hI
-  refine NnOut.congr (pf := setFromParamVal b { pf with vend := i }) ?_ rfl
-  have h5' : o ≤ pf.pstart ∧ pf.pstart < pf.pend ∧ pf.pend < pf.vstart ∧ pf.vstart < i ∧ nnGapM mv b pf.pend pf.vstart := by
-    rcases hst with g | g <;> simpa only [g, nnPend] using h5
-  exact nn_sfp_out _ h2 h3 (Nat.le_refl _)
+  refine NrOut.congr (pf := setFromParamVal b { pf with vend := i }) ?_ rfl
+  have h5' : o ≤ pf.pstart ∧ pf.pstart < pf.pend ∧ pf.pend < pf.vstart ∧ pf.vstart < i ∧ nrGapM mv b pf.pend pf.vstart := by
+    rcases hst with g | g <;> simpa only [g, nrPend] using h5
+  exact nr_sfp_out _ h2 h3 (Nat.le_refl _)
     ⟨h5'.1, h5'.2.1, h3, Or.inr ⟨h5'.2.2.1, h5'.2.2.2.1, Nat.le_refl _, h5'.2.2.2.2⟩⟩ h6
 
-theorem nn_eohNV {b : Buf} {m0 : NnNum} {o i : Nat} {pf : PFromBody} (hI : NnInv mv b m0 o i pf)
+theorem nr_eohNV {b : Buf} {m0 : NrNum} {o i : Nat} {pf : PFromBody} (hI : NrInv mv b m0 o i pf)
     (hst : pf.state = .newParamVal ∨ pf.state = .newPossibleVal) :
-    NnOut mv b m0 o i (naEOHVal b { pf with vstart := i } i) := by
+    NrOut mv b m0 o i (naEOHVal b { pf with vstart := i } i) := by
   obtain ⟨h1, h2, h3, h4, h5, h6⟩ := hI
-  refine NnOut.congr (pf := setFromParamVal b { pf with vstart := i, vend := i }) ?_ rfl
-  have h5' : o ≤ pf.pstart ∧ pf.pstart < pf.pend ∧ pf.pend < pf.vstart ∧ pf.vstart ≤ i ∧ nnEqM mv pf.vstart i ∧
-      nnGapM mv b pf.pend i := by
-    rcases hst with g | g <;> simpa only [g, nnPend] using h5
-  exact nn_sfp_out _ h2 h3 (Nat.le_refl _) ⟨h5'.1, h5'.2.1, h3, Or.inl rfl⟩ h6
+  refine NrOut.congr (pf := setFromParamVal b { pf with vstart := i, vend := i }) ?_ rfl
+  have h5' : o ≤ pf.pstart ∧ pf.pstart < pf.pend ∧ pf.pend < pf.vstart ∧ pf.vstart ≤ i ∧ nrEqM mv pf.vstart i ∧
+      nrGapM mv b pf.pend i := by
+    rcases hst with g | g <;> simpa only [g, nrPend] using h5
+  exact nr_sfp_out _ h2 h3 (Nat.le_refl _) ⟨h5'.1, h5'.2.1, h3, Or.inl rfl⟩ h6
 
-theorem nn_eohPVE {b : Buf} {m0 : NnNum} {o i : Nat} {pf : PFromBody} (hI : NnInv mv b m0 o i pf) (e : Nat)
+theorem nr_eohPVE {b : Buf} {m0 : NrNum} {o i : Nat} {pf : PFromBody} (hI : NrInv mv b m0 o i pf) (e : Nat)
     (hst : pf.state = .paramValEnd ∨ pf.state = .possibleValEnd) :
-    NnOut mv b m0 o i (((setFromParamVal b pf).extParams e).extV e) := by
+    NrOut mv b m0 o i (((setFromParamVal b pf).extParams e).extV e) := by
   obtain ⟨h1, h2, h3, h4, h5, h6⟩ := hI
-  refine NnOut.congr (pf := setFromParamVal b pf) ?_ rfl
-  have h5' : o ≤ pf.pstart ∧ pf.pstart < pf.pend ∧ pf.pend < pf.vstart ∧ pf.vstart < pf.vend ∧ nnGapM mv b pf.pend pf.vstart := by
-    rcases hst with g | g <;> simpa only [g, nnPend] using h5
-  exact nn_sfp_out _ h2 h3 h4 ⟨h5'.1, h5'.2.1, h3, Or.inr ⟨h5'.2.2.1, h5'.2.2.2.1, h4, h5'.2.2.2.2⟩⟩ h6
+  refine NrOut.congr (pf := setFromParamVal b pf) ?_ rfl
+  have h5' : o ≤ pf.pstart ∧ pf.pstart < pf.pend ∧ pf.pend < pf.vstart ∧ pf.vstart < pf.vend ∧ nrGapM mv b pf.pend pf.vstart := by
+    rcases hst with g | g <;> simpa only [g, nrPend] using h5
+  exact nr_sfp_out _ h2 h3 h4 ⟨h5'.1, h5'.2.1, h3, Or.inr ⟨h5'.2.2.1, h5'.2.2.2.1, h4, h5'.2.2.2.2⟩⟩ h6
 
-/-- **label `endOfHdr`**: whatever the state, the returned object satisfies `NnOut`.  `e` is the end of the value: the
+/-- **label `endOfHdr`**: whatever the state, the returned object satisfies `NrOut`.  `e` is the end of the value: the
     current position, or (new `,` case after white space) the saved end of the last name / value. -/
-theorem nn_eoh (h : Nat) {b : Buf} {m0 : NnNum} {o i : Nat} {pf : PFromBody} (hI : NnInv mv b m0 o i pf) (e n crl : Nat) (r : Err)
+theorem nr_eoh (h : Nat) {b : Buf} {m0 : NrNum} {o i : Nat} {pf : PFromBody} (hI : NrInv mv b m0 o i pf) (e n crl : Nat) (r : Err)
     (he : e = i ∨ pf.state = .paramNameEnd ∨ pf.state = .possibleParamNameEnd ∨ pf.state = .paramValEnd ∨
       pf.state = .possibleValEnd) (hin : i ≤ n + crl) (hn : n + crl ≤ b.size) :
-    NnOut mv b m0 o (naEOH h b pf e n crl r).1 (naEOH h b pf e n crl r).2.2 := by
+    NrOut mv b m0 o (naEOH h b pf e n crl r).1 (naEOH h b pf e n crl r).2.2 := by
   rw [naEOH_fst]
-  refine NnOut.mono (i := i) ?_ hin hn
-  have fin_out : ∀ p : PFromBody, NnOut mv b m0 o i p → NnOut mv b m0 o i { p with state := .fin, soffs := 0, type := h } :=
+  refine NrOut.mono (i := i) ?_ hin hn
+  have fin_out : ∀ p : PFromBody, NrOut mv b m0 o i p → NrOut mv b m0 o i { p with state := .fin, soffs := 0, type := h } :=
     fun p hp => hp.congr rfl
   unfold naEOH
   cases hst : pf.state <;> simp only [naFinish]
@@ -497,63 +527,63 @@ theorem nn_eoh (h : Nat) {b : Buf} {m0 : NnNum} {o i : Nat} {pf : PFromBody} (hI
     | exact fin_out _ hI.out
     | exact hI.out
     | exact fin_out _ (hI.out.congr rfl)
-    | exact fin_out _ (nn_eohPN hI e (Or.inl hst))
-    | exact fin_out _ (nn_eohPN hI e (Or.inr (Or.inl hst)))
-    | exact fin_out _ (nn_eohPN hI e (Or.inr (Or.inr (Or.inr (Or.inl hst)))))
-    | exact fin_out _ (nn_eohPN hI e (Or.inr (Or.inr (Or.inr (Or.inr hst)))))
-    | exact fin_out _ (nn_eohPVE hI e (Or.inl hst))
-    | exact fin_out _ (nn_eohPVE hI e (Or.inr hst))
+    | exact fin_out _ (nr_eohPN hI e (Or.inl hst))
+    | exact fin_out _ (nr_eohPN hI e (Or.inr (Or.inl hst)))
+    | exact fin_out _ (nr_eohPN hI e (Or.inr (Or.inr (Or.inr (Or.inl hst)))))
+    | exact fin_out _ (nr_eohPN hI e (Or.inr (Or.inr (Or.inr (Or.inr hst)))))
+    | exact fin_out _ (nr_eohPVE hI e (Or.inl hst))
+    | exact fin_out _ (nr_eohPVE hI e (Or.inr hst))
     | (have hE : e = i := by
          rcases he with he | he | he | he | he <;> first | exact he | (rw [hst] at he; cases he)
        subst hE
        first
-         | exact fin_out _ (nn_eohPN hI e (Or.inr (Or.inr (Or.inl ⟨Or.inl hst, rfl⟩))))
-         | exact fin_out _ (nn_eohPN hI e (Or.inr (Or.inr (Or.inl ⟨Or.inr hst, rfl⟩))))
-         | exact fin_out _ (nn_eohPV hI (Or.inl hst))
-         | exact fin_out _ (nn_eohPV hI (Or.inr hst))
-         | (rw [← hst]; exact fin_out _ (nn_eohNV hI (Or.inl hst)))
-         | (rw [← hst]; exact fin_out _ (nn_eohNV hI (Or.inr hst))))
+         | exact fin_out _ (nr_eohPN hI e (Or.inr (Or.inr (Or.inl ⟨Or.inl hst, rfl⟩))))
+         | exact fin_out _ (nr_eohPN hI e (Or.inr (Or.inr (Or.inl ⟨Or.inr hst, rfl⟩))))
+         | exact fin_out _ (nr_eohPV hI (Or.inl hst))
+         | exact fin_out _ (nr_eohPV hI (Or.inr hst))
+         | (rw [← hst]; exact fin_out _ (nr_eohNV hI (Or.inl hst)))
+         | (rw [← hst]; exact fin_out _ (nr_eohNV hI (Or.inr hst))))
 
 /-! #### one step of the loop body -/
 
-/-- what one step guarantees: a continuing step and a MoreBytes exit keep the invariant, every exit satisfies `NnOut` -/
-def nnStepOk (mv : Bool) (b : Buf) (m0 : NnNum) (o : Nat) : Step PFromBody → Prop
-  | .cont i' st' => NnInv mv b m0 o i' st'
-  | .done p e st' => NnOut mv b m0 o p st' ∧ (e = .moreBytes → NnInv mv b m0 o p st')
+/-- what one step guarantees: a continuing step and a MoreBytes exit keep the invariant, every exit satisfies `NrOut` -/
+def nrStepOk (mv : Bool) (b : Buf) (m0 : NrNum) (o : Nat) : Step PFromBody → Prop
+  | .cont i' st' => NrInv mv b m0 o i' st'
+  | .done p e st' => NrOut mv b m0 o p st' ∧ (e = .moreBytes → NrInv mv b m0 o p st')
 
-theorem nn_ok_cont {b : Buf} {m0 : NnNum} {o i' : Nat} {st' : PFromBody} (hI : NnInv mv b m0 o i' st') :
-    nnStepOk mv b m0 o (.cont i' st') := hI
+theorem nr_ok_cont {b : Buf} {m0 : NrNum} {o i' : Nat} {st' : PFromBody} (hI : NrInv mv b m0 o i' st') :
+    nrStepOk mv b m0 o (.cont i' st') := hI
 
-theorem nn_ok_err {b : Buf} {m0 : NnNum} {o p : Nat} {e : Err} {st' : PFromBody} (hout : NnOut mv b m0 o p st')
-    (he : e ≠ .moreBytes) : nnStepOk mv b m0 o (.done p e st') := ⟨hout, fun hh => absurd hh he⟩
+theorem nr_ok_err {b : Buf} {m0 : NrNum} {o p : Nat} {e : Err} {st' : PFromBody} (hout : NrOut mv b m0 o p st')
+    (he : e ≠ .moreBytes) : nrStepOk mv b m0 o (.done p e st') := ⟨hout, fun hh => absurd hh he⟩
 
-theorem nn_ok_more {b : Buf} {m0 : NnNum} {o p : Nat} {e : Err} {st' : PFromBody} (hI : NnInv mv b m0 o p st') :
-    nnStepOk mv b m0 o (.done p e st') := ⟨hI.out, fun _ => hI⟩
+theorem nr_ok_more {b : Buf} {m0 : NrNum} {o p : Nat} {e : Err} {st' : PFromBody} (hI : NrInv mv b m0 o p st') :
+    nrStepOk mv b m0 o (.done p e st') := ⟨hI.out, fun _ => hI⟩
 
-theorem NnInv.saveS {b : Buf} {m0 : NnNum} {o i : Nat} {pf : PFromBody} (h : NnInv mv b m0 o i pf) : NnInv mv b m0 o i pf.saveS :=
+theorem NrInv.saveS {b : Buf} {m0 : NrNum} {o i : Nat} {pf : PFromBody} (h : NrInv mv b m0 o i pf) : NrInv mv b m0 o i pf.saveS :=
   h.congr rfl rfl rfl rfl rfl rfl
 
-theorem nn_eoh_ok (h : Nat) {b : Buf} {m0 : NnNum} {o i : Nat} {pf : PFromBody} (hI : NnInv mv b m0 o i pf) (e n crl : Nat) (r : Err)
+theorem nr_eoh_ok (h : Nat) {b : Buf} {m0 : NrNum} {o i : Nat} {pf : PFromBody} (hI : NrInv mv b m0 o i pf) (e n crl : Nat) (r : Err)
     (hr : r ≠ .moreBytes)
     (he : e = i ∨ pf.state = .paramNameEnd ∨ pf.state = .possibleParamNameEnd ∨ pf.state = .paramValEnd ∨
       pf.state = .possibleValEnd) (hin : i ≤ n + crl) (hn : n + crl ≤ b.size) :
-    nnStepOk mv b m0 o (.done (naEOH h b pf e n crl r).1 (naEOH h b pf e n crl r).2.1 (naEOH h b pf e n crl r).2.2) :=
-  nn_ok_err (nn_eoh h hI e n crl r he hin hn) (naEOH_ne_more h b pf e n crl r hr)
+    nrStepOk mv b m0 o (.done (naEOH h b pf e n crl r).1 (naEOH h b pf e n crl r).2.1 (naEOH h b pf e n crl r).2.2) :=
+  nr_ok_err (nr_eoh h hI e n crl r he hin hn) (naEOH_ne_more h b pf e n crl r hr)
 
-theorem nn_moreValues (h : Nat) {b : Buf} {m0 : NnNum} {o i : Nat} {pf : PFromBody} (hI : NnInv mv b m0 o i pf) (hlt : i < b.size) :
-    nnStepOk mv b m0 o (naMoreValues h b pf i) :=
-  nn_eoh_ok h hI i i 1 .moreValues (by decide) (Or.inl rfl) (by omega) (by omega)
+theorem nr_moreValues (h : Nat) {b : Buf} {m0 : NrNum} {o i : Nat} {pf : PFromBody} (hI : NrInv mv b m0 o i pf) (hlt : i < b.size) :
+    nrStepOk mv b m0 o (naMoreValues h b pf i) :=
+  nr_eoh_ok h hI i i 1 .moreValues (by decide) (Or.inl rfl) (by omega) (by omega)
 
-theorem nn_commaAfterWS (h : Nat) {b : Buf} {m0 : NnNum} {o i : Nat} {pf : PFromBody} (hI : NnInv mv b m0 o i pf) (hlt : i < b.size)
+theorem nr_commaAfterWS (h : Nat) {b : Buf} {m0 : NrNum} {o i : Nat} {pf : PFromBody} (hI : NrInv mv b m0 o i pf) (hlt : i < b.size)
     (e : Nat) (hst : pf.state = .paramNameEnd ∨ pf.state = .possibleParamNameEnd ∨ pf.state = .paramValEnd ∨
-      pf.state = .possibleValEnd) : nnStepOk mv b m0 o (naCommaAfterWS h b pf i e) := by
+      pf.state = .possibleValEnd) : nrStepOk mv b m0 o (naCommaAfterWS h b pf i e) := by
   unfold naCommaAfterWS
   split
-  · exact nn_eoh_ok h hI e i 1 .moreValues (by decide) (Or.inr hst) (by omega) (by omega)
-  · exact nn_ok_err hI.out (by decide)
+  · exact nr_eoh_ok h hI e i 1 .moreValues (by decide) (Or.inr hst) (by omega) (by omega)
+  · exact nr_ok_err hI.out (by decide)
 
-theorem nn_naLWS (h : Nat) {b : Buf} {m0 : NnNum} {o i : Nat} {pf : PFromBody} (hI : NnInv mv b m0 o i pf)
-    (hne : ¬ nnAtPos pf.state) : nnStepOk mv b m0 o (naLWS h b i pf) := by
+theorem nr_naLWS (h : Nat) {b : Buf} {m0 : NrNum} {o i : Nat} {pf : PFromBody} (hI : NrInv mv b m0 o i pf)
+    (hne : ¬ nrAtPos pf.state) : nrStepOk mv b m0 o (naLWS h b i pf) := by
   unfold naLWS lwsStd
   rcases hsk : skipLWS b i 0 with ⟨n, crl, e1⟩
   have hr := skipLWS_range b i 0 hsk
@@ -561,148 +591,148 @@ theorem nn_naLWS (h : Nat) {b : Buf} {m0 : NnNum} {o i : Nat} {pf : PFromBody} (
   rcases hv with rfl | rfl | rfl | rfl <;> simp only
   · exact hI.mono hr.1 (hr.2 hI.hi) hne
   · have hrg := skipLWS_eoh_range b i 0 hsk (by decide)
-    exact nn_eoh_ok h hI i n crl .ok (by decide) (Or.inl rfl) (by omega) (by omega)
-  · exact nn_ok_err (hI.out.mono hr.1 (hr.2 hI.hi)) (by decide)
-  · exact nn_ok_more (hI.mono hr.1 (hr.2 hI.hi) hne).saveS
+    exact nr_eoh_ok h hI i n crl .ok (by decide) (Or.inl rfl) (by omega) (by omega)
+  · exact nr_ok_err (hI.out.mono hr.1 (hr.2 hI.hi)) (by decide)
+  · exact nr_ok_more (hI.mono hr.1 (hr.2 hI.hi) hne).saveS
 
 /-- splits a conjunction of (in)equalities, white-space runs and gaps and closes each part; `h5` is the (simplified)
-    `nnPend` fact of the object before the step -/
-macro "nn_arith" h5:ident : tactic =>
+    `nrPend` fact of the object before the step -/
+macro "nr_arith" h5:ident : tactic =>
   `(tactic| ((repeat' apply And.intro) <;>
       first
         | trivial
         | omega
         | assumption
-        | exact nn_run_empty _ _ _
+        | exact nr_run_empty _ _ _
         | (simp only [$h5:ident]; done)
-        | exact nn_gap_eq (nn_run_empty _ _ _) (Nat.le_refl _) (by assumption) (by assumption)
-        | exact nn_gap_eq (by simp only [$h5:ident]) (by omega) (by assumption) (by assumption)
-        | (refine NnGap.extend ?_ (by assumption) (by omega); simp only [$h5:ident]; done)))
+        | exact nr_gap_eq (nr_run_empty _ _ _) (Nat.le_refl _) (by assumption) (by assumption)
+        | exact nr_gap_eq (by simp only [$h5:ident]) (by omega) (by assumption) (by assumption)
+        | (refine NrGap.extend ?_ (by assumption) (by omega); simp only [$h5:ident]; done)))
 
-/-- closes `NnInv … pf'` for an explicitly updated object from the destructured invariant of `pf` (`h5`, its `nnPend`
-    fact, already simplified with the state equation `g`; `h6` its `NnAcc` fact) -/
-macro "nn_close" g:ident h5:ident h6:ident : tactic =>
-  `(tactic| (refine ⟨?_, ?_, ?_, ?_, ?_, NnAcc.mono $h6 (by omega)⟩
+/-- closes `NrInv … pf'` for an explicitly updated object from the destructured invariant of `pf` (`h5`, its `nrPend`
+    fact, already simplified with the state equation `g`; `h6` its `NrAcc` fact) -/
+macro "nr_close" g:ident h5:ident h6:ident : tactic =>
+  `(tactic| (refine ⟨?_, ?_, ?_, ?_, ?_, NrAcc.mono $h6 (by omega)⟩
              · omega
              · omega
              · first | omega | (dsimp only [PFromBody.setURI, PFromBody.setName, PFromBody.setV, PFromBody.extV,
                  PFromBody.extParams, PFromBody.resetUPT]; omega)
              · first | omega | (dsimp only [PFromBody.setURI, PFromBody.setName, PFromBody.setV, PFromBody.extV,
                  PFromBody.extParams, PFromBody.resetUPT]; omega)
-             · (simp only [nnPend, nnGapM, nnEqM, $g:ident, PFromBody.setURI, PFromBody.setName, PFromBody.setV, PFromBody.extV,
-                 PFromBody.extParams, PFromBody.resetUPT]; nn_arith $h5)))
+             · (simp only [nrPend, nrGapM, nrEqM, $g:ident, PFromBody.setURI, PFromBody.setName, PFromBody.setV, PFromBody.extV,
+                 PFromBody.extParams, PFromBody.resetUPT]; nr_arith $h5)))
 
-theorem nn_stepA (h : Nat) {b : Buf} {m0 : NnNum} {o i : Nat} {pf : PFromBody} (c : UInt8) (hb : b[i]? = some c)
-    (hI : NnInv mv b m0 o i pf)
+theorem nr_stepA (h : Nat) {b : Buf} {m0 : NrNum} {o i : Nat} {pf : PFromBody} (c : UInt8) (hb : b[i]? = some c)
+    (hI : NrInv mv b m0 o i pf)
     (hg : pf.state = .init ∨ pf.state = .name ∨ pf.state = .nameOrURI ∨ pf.state = .nameOrURIEnd) :
-    nnStepOk mv b m0 o (naStepA h b i c pf) := by
+    nrStepOk mv b m0 o (naStepA h b i c pf) := by
   have hib := get?_lt hb
   have hI' := hI
   obtain ⟨h1, h2, h3, h4, h5, h6⟩ := hI
   unfold naStepA
-  rcases hg with g | g | g | g <;> simp only [nnPend, nnGapM, nnEqM, g] at h5 <;> simp +decide only [g, Bool.false_eq_true, ↓reduceIte] <;> repeat' split
+  rcases hg with g | g | g | g <;> simp only [nrPend, nrGapM, nrEqM, g] at h5 <;> simp +decide only [g, Bool.false_eq_true, ↓reduceIte] <;> repeat' split
   all_goals first
-    | exact nn_naLWS h hI' (by simp [nnAtPos, g])
-    | exact nn_moreValues h hI' hib
-    | exact nn_ok_err hI'.out (by decide)
-    | (refine nn_naLWS h ?_ ?_ <;> first | nn_close g h5 h6 | simp [nnAtPos])
-    | (refine nn_ok_cont ?_; nn_close g h5 h6)
+    | exact nr_naLWS h hI' (by simp [nrAtPos, g])
+    | exact nr_moreValues h hI' hib
+    | exact nr_ok_err hI'.out (by decide)
+    | (refine nr_naLWS h ?_ ?_ <;> first | nr_close g h5 h6 | simp [nrAtPos])
+    | (refine nr_ok_cont ?_; nr_close g h5 h6)
 
-theorem nn_stepQ (h : Nat) {b : Buf} {m0 : NnNum} {o i : Nat} {pf : PFromBody} (c : UInt8) (hb : b[i]? = some c)
-    (hI : NnInv mv b m0 o i pf)
+theorem nr_stepQ (h : Nat) {b : Buf} {m0 : NrNum} {o i : Nat} {pf : PFromBody} (c : UInt8) (hb : b[i]? = some c)
+    (hI : NrInv mv b m0 o i pf)
     (hg : pf.state = .quoted ∨ pf.state = .quotedVal ∨ pf.state = .quotedPossibleVal) :
-    nnStepOk mv b m0 o (naStepQ h b i c pf) := by
+    nrStepOk mv b m0 o (naStepQ h b i c pf) := by
   have hib := get?_lt hb
   have hI' := hI
   obtain ⟨h1, h2, h3, h4, h5, h6⟩ := hI
   unfold naStepQ
-  rcases hg with g | g | g <;> simp only [nnPend, nnGapM, nnEqM, g] at h5 <;> simp +decide only [g, Bool.false_eq_true, ↓reduceIte] <;> repeat' split
+  rcases hg with g | g | g <;> simp only [nrPend, nrGapM, nrEqM, g] at h5 <;> simp +decide only [g, Bool.false_eq_true, ↓reduceIte] <;> repeat' split
   all_goals first
-    | exact nn_naLWS h hI' (by simp [nnAtPos, g])
-    | exact nn_ok_more hI'.saveS
+    | exact nr_naLWS h hI' (by simp [nrAtPos, g])
+    | exact nr_ok_more hI'.saveS
     | (have hq := get?_lt (by assumption : b[i + 1]? = some _)
        first
-         | exact nn_ok_err (hI'.out.mono (by omega) (by omega)) (by decide)
-         | exact nn_ok_cont (hI'.mono (by omega) (by omega) (by simp [nnAtPos, g])))
-    | (refine nn_ok_cont ?_; nn_close g h5 h6)
+         | exact nr_ok_err (hI'.out.mono (by omega) (by omega)) (by decide)
+         | exact nr_ok_cont (hI'.mono (by omega) (by omega) (by simp [nrAtPos, g])))
+    | (refine nr_ok_cont ?_; nr_close g h5 h6)
 
-theorem nn_stepU {b : Buf} {m0 : NnNum} {o i : Nat} {pf : PFromBody} (c : UInt8) (hb : b[i]? = some c)
-    (hI : NnInv mv b m0 o i pf) (g : pf.state = .uri) : nnStepOk mv b m0 o (naStepU i c pf) := by
+theorem nr_stepU {b : Buf} {m0 : NrNum} {o i : Nat} {pf : PFromBody} (c : UInt8) (hb : b[i]? = some c)
+    (hI : NrInv mv b m0 o i pf) (g : pf.state = .uri) : nrStepOk mv b m0 o (naStepU i c pf) := by
   have hib := get?_lt hb
   have hI' := hI
   obtain ⟨h1, h2, h3, h4, h5, h6⟩ := hI
-  simp only [nnPend, g] at h5
+  simp only [nrPend, g] at h5
   unfold naStepU
   repeat' split
   all_goals first
-    | exact nn_ok_err hI'.out (by decide)
-    | (refine nn_ok_cont ?_; nn_close g h5 h6)
+    | exact nr_ok_err hI'.out (by decide)
+    | (refine nr_ok_cont ?_; nr_close g h5 h6)
 
-theorem nn_stepUF (h : Nat) {b : Buf} {m0 : NnNum} {o i : Nat} {pf : PFromBody} (c : UInt8) (hb : b[i]? = some c)
-    (hI : NnInv mv b m0 o i pf) (g : pf.state = .uriFound) : nnStepOk mv b m0 o (naStepUF h b i c pf) := by
+theorem nr_stepUF (h : Nat) {b : Buf} {m0 : NrNum} {o i : Nat} {pf : PFromBody} (c : UInt8) (hb : b[i]? = some c)
+    (hI : NrInv mv b m0 o i pf) (g : pf.state = .uriFound) : nrStepOk mv b m0 o (naStepUF h b i c pf) := by
   have hib := get?_lt hb
   have hI' := hI
   obtain ⟨h1, h2, h3, h4, h5, h6⟩ := hI
-  simp only [nnPend, g] at h5
+  simp only [nrPend, g] at h5
   unfold naStepUF
   repeat' split
   all_goals first
-    | exact nn_naLWS h hI' (by simp [nnAtPos, g])
-    | exact nn_moreValues h hI' hib
-    | (refine nn_ok_cont ?_; nn_close g h5 h6)
+    | exact nr_naLWS h hI' (by simp [nrAtPos, g])
+    | exact nr_moreValues h hI' hib
+    | (refine nr_ok_cont ?_; nr_close g h5 h6)
 
-theorem nn_stepStar (h : Nat) {b : Buf} {m0 : NnNum} {o i : Nat} {pf : PFromBody} (c : UInt8)
-    (hI : NnInv mv b m0 o i pf) (g : pf.state = .star) : nnStepOk mv b m0 o (naStepStar h b i c pf) := by
+theorem nr_stepStar (h : Nat) {b : Buf} {m0 : NrNum} {o i : Nat} {pf : PFromBody} (c : UInt8)
+    (hI : NrInv mv b m0 o i pf) (g : pf.state = .star) : nrStepOk mv b m0 o (naStepStar h b i c pf) := by
   unfold naStepStar
   split
-  · exact nn_naLWS h hI (by simp [nnAtPos, g])
-  · exact nn_ok_err hI.out (by decide)
+  · exact nr_naLWS h hI (by simp [nrAtPos, g])
+  · exact nr_ok_err hI.out (by decide)
 
 /-! #### parameter names -/
 
 /-- a parameter without value text ends at `;` -/
-theorem nn_sfp_flag {b : Buf} {m0 : NnNum} {o i : Nat} (pf : PFromBody) (hoi : o ≤ i) (hib : i < b.size)
+theorem nr_sfp_flag {b : Buf} {m0 : NrNum} {o i : Nat} (pf : PFromBody) (hoi : o ≤ i) (hib : i < b.size)
     (h1 : o ≤ pf.pstart) (h2 : pf.pstart < pf.pend) (h3 : pf.pend ≤ i) (h4 : pf.vend ≤ i) (h5 : pf.vstart = pf.vend)
-    (hacc : NnAcc mv b m0 o i pf.nnNum) (hst : pf.state = .newParam ∨ pf.state = .newPossibleParam) :
-    NnInv mv b m0 o (i + 1) (setFromParamVal b pf) :=
-  nn_sfp_inv pf hoi (by omega) h3 h4 ⟨h1, h2, h3, Or.inl h5⟩ hacc hst (by omega) (by omega)
+    (hacc : NrAcc mv b m0 o i pf.nrNum) (hst : pf.state = .newParam ∨ pf.state = .newPossibleParam) :
+    NrInv mv b m0 o (i + 1) (setFromParamVal b pf) :=
+  nr_sfp_inv pf hoi (by omega) h3 h4 ⟨h1, h2, h3, Or.inl h5⟩ hacc hst (by omega) (by omega)
 
 /-- a parameter with `=` ends at `;` (the value text may be empty) -/
-theorem nn_sfp_val {b : Buf} {m0 : NnNum} {o i : Nat} (pf : PFromBody) (hoi : o ≤ i) (hib : i < b.size)
+theorem nr_sfp_val {b : Buf} {m0 : NrNum} {o i : Nat} (pf : PFromBody) (hoi : o ≤ i) (hib : i < b.size)
     (h1 : o ≤ pf.pstart) (h2 : pf.pstart < pf.pend) (h3 : pf.pend < pf.vstart) (h4 : pf.vstart ≤ pf.vend) (h5 : pf.vend ≤ i)
-    (hgap : nnGapM mv b pf.pend pf.vstart)
-    (hacc : NnAcc mv b m0 o i pf.nnNum) (hst : pf.state = .newParam ∨ pf.state = .newPossibleParam) :
-    NnInv mv b m0 o (i + 1) (setFromParamVal b pf) := by
-  refine nn_sfp_inv pf hoi (by omega) (by omega) h5 ⟨h1, h2, by show pf.pend ≤ i; omega, ?_⟩ hacc hst (by omega) (by omega)
+    (hgap : nrGapM mv b pf.pend pf.vstart)
+    (hacc : NrAcc mv b m0 o i pf.nrNum) (hst : pf.state = .newParam ∨ pf.state = .newPossibleParam) :
+    NrInv mv b m0 o (i + 1) (setFromParamVal b pf) := by
+  refine nr_sfp_inv pf hoi (by omega) (by omega) h5 ⟨h1, h2, by show pf.pend ≤ i; omega, ?_⟩ hacc hst (by omega) (by omega)
   rcases Nat.lt_or_ge pf.vstart pf.vend with hlt | hge
   · exact Or.inr ⟨h3, hlt, h5, hgap⟩
   · exact Or.inl (by show pf.vstart = pf.vend; omega)
 
 /-- white space after a parameter name (`n` = where the white space ends) -/
-theorem nn_nameWS {b : Buf} {m0 : NnNum} {o i n : Nat} {pf : PFromBody} (hI : NnInv mv b m0 o i pf)
+theorem nr_nameWS {b : Buf} {m0 : NrNum} {o i n : Nat} {pf : PFromBody} (hI : NrInv mv b m0 o i pf)
     (hg : pf.state = .newParam ∨ pf.state = .newPossibleParam ∨ pf.state = .paramName ∨ pf.state = .possibleParamName)
-    (hin : i ≤ n) (hn : n ≤ b.size) (hrun : Run isLWSch b i n) : NnInv mv b m0 o n (naNameWS pf i) := by
+    (hin : i ≤ n) (hn : n ≤ b.size) (hrun : Run isLWSch b i n) : NrInv mv b m0 o n (naNameWS pf i) := by
   obtain ⟨h1, h2, h3, h4, h5, h6⟩ := hI
   unfold naNameWS
-  rcases hg with g | g | g | g <;> simp only [nnPend, nnGapM, nnEqM, g] at h5 <;> simp +decide only [g, Bool.false_eq_true, ↓reduceIte] <;> nn_close g h5 h6
+  rcases hg with g | g | g | g <;> simp only [nrPend, nrGapM, nrEqM, g] at h5 <;> simp +decide only [g, Bool.false_eq_true, ↓reduceIte] <;> nr_close g h5 h6
 
-theorem nn_paramStart {b : Buf} {m0 : NnNum} {o i : Nat} {pf : PFromBody} (hI : NnInv mv b m0 o i pf) (hib : i < b.size)
+theorem nr_paramStart {b : Buf} {m0 : NrNum} {o i : Nat} {pf : PFromBody} (hI : NrInv mv b m0 o i pf) (hib : i < b.size)
     (hg : pf.state = .newParam ∨ pf.state = .newPossibleParam ∨ pf.state = .paramName ∨ pf.state = .possibleParamName) :
-    NnInv mv b m0 o (i + 1) (naParamsOffs (naParamStart pf i) i) := by
+    NrInv mv b m0 o (i + 1) (naParamsOffs (naParamStart pf i) i) := by
   obtain ⟨h1, h2, h3, h4, h5, h6⟩ := hI
   unfold naParamsOffs naParamStart
-  rcases hg with g | g | g | g <;> simp only [nnPend, nnGapM, nnEqM, g] at h5 <;> simp +decide only [g, Bool.false_eq_true, ↓reduceIte] <;> split <;>
-    nn_close g h5 h6
+  rcases hg with g | g | g | g <;> simp only [nrPend, nrGapM, nrEqM, g] at h5 <;> simp +decide only [g, Bool.false_eq_true, ↓reduceIte] <;> split <;>
+    nr_close g h5 h6
 
 /-- `case fbNewParam, fbNewPossibleParam, fbParamName, fbPossibleParamName:` -/
-theorem nn_stepP (h : Nat) {b : Buf} {m0 : NnNum} {o i : Nat} {pf : PFromBody} (c : UInt8) (hb : b[i]? = some c)
-    (hmv : multipleValsOk h = mv) (hI : NnInv mv b m0 o i pf)
+theorem nr_stepP (h : Nat) {b : Buf} {m0 : NrNum} {o i : Nat} {pf : PFromBody} (c : UInt8) (hb : b[i]? = some c)
+    (hmv : multipleValsOk h = mv) (hI : NrInv mv b m0 o i pf)
     (hg : pf.state = .newParam ∨ pf.state = .newPossibleParam ∨ pf.state = .paramName ∨ pf.state = .possibleParamName) :
-    nnStepOk mv b m0 o (naStepP h b i c pf) := by
+    nrStepOk mv b m0 o (naStepP h b i c pf) := by
   have hib := get?_lt hb
   have hI' := hI
-  have hW := nn_nameWS hI hg (Nat.le_refl _) hI.hi (nn_run_empty _ _ _)
-  have hS := nn_paramStart hI hib hg
+  have hW := nr_nameWS hI hg (Nat.le_refl _) hI.hi (nr_run_empty _ _ _)
+  have hS := nr_paramStart hI hib hg
   obtain ⟨h1, h2, h3, h4, h5, h6⟩ := hI
   unfold naStepP
   split
@@ -710,59 +740,59 @@ theorem nn_stepP (h : Nat) {b : Buf} {m0 : NnNum} {o i : Nat} {pf : PFromBody} (
     have hr := skipLWS_range b i 0 hsk
     have hv := skipLWS_verdicts b i 0 hsk
     rcases hv with rfl | rfl | rfl | rfl <;> simp only
-    · exact nn_ok_cont (nn_nameWS hI' hg hr.1 (hr.2 h2) (nn_skipLWS_run b i 0 hsk))
+    · exact nr_ok_cont (nr_nameWS hI' hg hr.1 (hr.2 h2) (nr_skipLWS_run b i 0 hsk))
     · have hrg := skipLWS_eoh_range b i 0 hsk (by decide)
-      exact nn_eoh_ok h hW i n crl .ok (by decide) (Or.inl rfl) (by omega) (by omega)
-    · exact nn_ok_err (hW.out.mono hr.1 (hr.2 h2)) (by decide)
-    · exact nn_ok_more hI'.saveS
-  · rcases hg with g | g | g | g <;> cases mv <;> simp only [nnPend, nnGapM, nnEqM, g] at h5 <;> simp +decide only [g, hmv, Bool.false_eq_true, ↓reduceIte] <;> repeat' split
+      exact nr_eoh_ok h hW i n crl .ok (by decide) (Or.inl rfl) (by omega) (by omega)
+    · exact nr_ok_err (hW.out.mono hr.1 (hr.2 h2)) (by decide)
+    · exact nr_ok_more hI'.saveS
+  · rcases hg with g | g | g | g <;> cases mv <;> simp only [nrPend, nrGapM, nrEqM, g] at h5 <;> simp +decide only [g, hmv, Bool.false_eq_true, ↓reduceIte] <;> repeat' split
     all_goals first
-      | exact nn_moreValues h hI' hib
-      | exact nn_ok_err hI'.out (by decide)
-      | exact nn_ok_cont hS
-      | (refine nn_ok_cont (nn_sfp_flag _ h1 hib ?_ ?_ ?_ ?_ ?_ h6 (by first | exact Or.inl rfl | exact Or.inr rfl)) <;>
+      | exact nr_moreValues h hI' hib
+      | exact nr_ok_err hI'.out (by decide)
+      | exact nr_ok_cont hS
+      | (refine nr_ok_cont (nr_sfp_flag _ h1 hib ?_ ?_ ?_ ?_ ?_ h6 (by first | exact Or.inl rfl | exact Or.inr rfl)) <;>
            first | omega | (dsimp only; omega))
-      | (refine nn_ok_cont ?_; nn_close g h5 h6)
+      | (refine nr_ok_cont ?_; nr_close g h5 h6)
 
 /-- `case fbParamNameEnd, fbPossibleParamNameEnd:` -/
-theorem nn_stepPE (h : Nat) {b : Buf} {m0 : NnNum} {o i : Nat} {pf : PFromBody} (c : UInt8) (hb : b[i]? = some c)
-    (hI : NnInv mv b m0 o i pf) (hg : pf.state = .paramNameEnd ∨ pf.state = .possibleParamNameEnd) :
-    nnStepOk mv b m0 o (naStepPE h b i c pf) := by
+theorem nr_stepPE (h : Nat) {b : Buf} {m0 : NrNum} {o i : Nat} {pf : PFromBody} (c : UInt8) (hb : b[i]? = some c)
+    (hI : NrInv mv b m0 o i pf) (hg : pf.state = .paramNameEnd ∨ pf.state = .possibleParamNameEnd) :
+    nrStepOk mv b m0 o (naStepPE h b i c pf) := by
   have hib := get?_lt hb
   have hI' := hI
-  have hC := nn_commaAfterWS h hI hib pf.pend (by rcases hg with g | g <;> simp [g])
+  have hC := nr_commaAfterWS h hI hib pf.pend (by rcases hg with g | g <;> simp [g])
   obtain ⟨h1, h2, h3, h4, h5, h6⟩ := hI
   unfold naStepPE
-  rcases hg with g | g <;> cases mv <;> simp only [nnPend, nnGapM, nnEqM, g] at h5 <;> simp +decide only [g, Bool.false_eq_true, ↓reduceIte] <;> repeat' split
+  rcases hg with g | g <;> cases mv <;> simp only [nrPend, nrGapM, nrEqM, g] at h5 <;> simp +decide only [g, Bool.false_eq_true, ↓reduceIte] <;> repeat' split
   all_goals first
     | exact hC
-    | exact nn_ok_err hI'.out (by decide)
-    | (refine nn_ok_cont (nn_sfp_flag _ h1 hib ?_ ?_ ?_ ?_ ?_ h6 (by first | exact Or.inl rfl | exact Or.inr rfl)) <;>
+    | exact nr_ok_err hI'.out (by decide)
+    | (refine nr_ok_cont (nr_sfp_flag _ h1 hib ?_ ?_ ?_ ?_ ?_ h6 (by first | exact Or.inl rfl | exact Or.inr rfl)) <;>
          first | omega | (dsimp only; omega))
-    | (refine nn_ok_cont ?_; nn_close g h5 h6)
+    | (refine nr_ok_cont ?_; nr_close g h5 h6)
 
 /-! #### parameter values -/
 
-theorem nn_valWS_true {b : Buf} {m0 : NnNum} {o i n : Nat} {pf : PFromBody} (hI : NnInv mv b m0 o i pf) (hin : i ≤ n)
+theorem nr_valWS_true {b : Buf} {m0 : NrNum} {o i n : Nat} {pf : PFromBody} (hI : NrInv mv b m0 o i pf) (hin : i ≤ n)
     (hn : n ≤ b.size) (hrun : Run isLWSch b i n)
     (hg : pf.state = .newParamVal ∨ pf.state = .newPossibleVal ∨ pf.state = .paramVal ∨ pf.state = .possibleVal) :
-    NnInv mv b m0 o n (naValWS pf i n true) := by
+    NrInv mv b m0 o n (naValWS pf i n true) := by
   obtain ⟨h1, h2, h3, h4, h5, h6⟩ := hI
   unfold naValWS
-  rcases hg with g | g | g | g <;> cases mv <;> simp only [nnPend, nnGapM, nnEqM, g] at h5 <;> simp +decide only [g, Bool.false_eq_true, ↓reduceIte] <;> nn_close g h5 h6
+  rcases hg with g | g | g | g <;> cases mv <;> simp only [nrPend, nrGapM, nrEqM, g] at h5 <;> simp +decide only [g, Bool.false_eq_true, ↓reduceIte] <;> nr_close g h5 h6
 
-theorem nn_valWS_false {b : Buf} {m0 : NnNum} {o i n : Nat} {pf : PFromBody} (hI : NnInv mv b m0 o i pf)
+theorem nr_valWS_false {b : Buf} {m0 : NrNum} {o i n : Nat} {pf : PFromBody} (hI : NrInv mv b m0 o i pf)
     (hg : pf.state = .newParamVal ∨ pf.state = .newPossibleVal ∨ pf.state = .paramVal ∨ pf.state = .possibleVal) :
-    NnInv mv b m0 o i (naValWS pf i n false) := by
+    NrInv mv b m0 o i (naValWS pf i n false) := by
   obtain ⟨h1, h2, h3, h4, h5, h6⟩ := hI
   unfold naValWS
-  rcases hg with g | g | g | g <;> simp only [nnPend, nnGapM, nnEqM, g] at h5 <;> simp +decide only [g, Bool.false_eq_true, ↓reduceIte] <;> nn_close g h5 h6
+  rcases hg with g | g | g | g <;> simp only [nrPend, nrGapM, nrEqM, g] at h5 <;> simp +decide only [g, Bool.false_eq_true, ↓reduceIte] <;> nr_close g h5 h6
 
 /-- `case fbNewParamVal, fbNewPossibleVal, fbParamVal, fbPossibleVal:` -/
-theorem nn_stepV (h : Nat) {b : Buf} {m0 : NnNum} {o i : Nat} {pf : PFromBody} (c : UInt8) (hb : b[i]? = some c)
-    (hmv : multipleValsOk h = mv) (hI : NnInv mv b m0 o i pf)
+theorem nr_stepV (h : Nat) {b : Buf} {m0 : NrNum} {o i : Nat} {pf : PFromBody} (c : UInt8) (hb : b[i]? = some c)
+    (hmv : multipleValsOk h = mv) (hI : NrInv mv b m0 o i pf)
     (hg : pf.state = .newParamVal ∨ pf.state = .newPossibleVal ∨ pf.state = .paramVal ∨ pf.state = .possibleVal) :
-    nnStepOk mv b m0 o (naStepV h b i c pf) := by
+    nrStepOk mv b m0 o (naStepV h b i c pf) := by
   have hib := get?_lt hb
   have hI' := hI
   obtain ⟨h1, h2, h3, h4, h5, h6⟩ := hI
@@ -771,73 +801,73 @@ theorem nn_stepV (h : Nat) {b : Buf} {m0 : NnNum} {o i : Nat} {pf : PFromBody} (
   · rcases hsk : skipLWS b i 0 with ⟨n, crl, e1⟩
     have hr := skipLWS_range b i 0 hsk
     have hv := skipLWS_verdicts b i 0 hsk
-    have hF := nn_valWS_false (n := n) hI' hg
+    have hF := nr_valWS_false (n := n) hI' hg
     rcases hv with rfl | rfl | rfl | rfl <;> simp only
-    · exact nn_ok_cont (nn_valWS_true hI' hr.1 (hr.2 h2) (nn_skipLWS_run b i 0 hsk) hg)
+    · exact nr_ok_cont (nr_valWS_true hI' hr.1 (hr.2 h2) (nr_skipLWS_run b i 0 hsk) hg)
     · have hrg := skipLWS_eoh_range b i 0 hsk (by decide)
-      exact nn_eoh_ok h hF i n crl .ok (by decide) (Or.inl rfl) (by omega) (by omega)
-    · exact nn_ok_err (hF.out.mono hr.1 (hr.2 h2)) (by decide)
-    · exact nn_ok_more hI'.saveS
-  · rcases hg with g | g | g | g <;> cases mv <;> simp only [nnPend, nnGapM, nnEqM, g] at h5 <;> simp +decide only [g, hmv, Bool.false_eq_true, ↓reduceIte] <;> repeat' split
+      exact nr_eoh_ok h hF i n crl .ok (by decide) (Or.inl rfl) (by omega) (by omega)
+    · exact nr_ok_err (hF.out.mono hr.1 (hr.2 h2)) (by decide)
+    · exact nr_ok_more hI'.saveS
+  · rcases hg with g | g | g | g <;> cases mv <;> simp only [nrPend, nrGapM, nrEqM, g] at h5 <;> simp +decide only [g, hmv, Bool.false_eq_true, ↓reduceIte] <;> repeat' split
     all_goals first
-      | exact nn_moreValues h hI' hib
-      | exact nn_ok_err hI'.out (by decide)
-      | (refine nn_ok_cont (nn_sfp_flag _ h1 hib ?_ ?_ ?_ ?_ ?_ h6 (by first | exact Or.inl rfl | exact Or.inr rfl)) <;>
+      | exact nr_moreValues h hI' hib
+      | exact nr_ok_err hI'.out (by decide)
+      | (refine nr_ok_cont (nr_sfp_flag _ h1 hib ?_ ?_ ?_ ?_ ?_ h6 (by first | exact Or.inl rfl | exact Or.inr rfl)) <;>
            first | omega | (dsimp only; omega))
-      | (refine nn_ok_cont (nn_sfp_val _ h1 hib ?_ ?_ ?_ ?_ ?_ ?_ h6 (by first | exact Or.inl rfl | exact Or.inr rfl)) <;>
-           first | omega | (dsimp only; omega) | (dsimp only; simp only [h5]; done))
-      | (refine nn_ok_cont ?_; nn_close g h5 h6)
+      | (refine nr_ok_cont (nr_sfp_val _ h1 hib ?_ ?_ ?_ ?_ ?_ ?_ h6 (by first | exact Or.inl rfl | exact Or.inr rfl)) <;>
+           first | omega | (dsimp only; omega) | (dsimp only; simp only [nrGapM, h5]; done))
+      | (refine nr_ok_cont ?_; nr_close g h5 h6)
 
 /-- `case fbParamValEnd, fbPossibleValEnd:` -/
-theorem nn_stepVE (h : Nat) {b : Buf} {m0 : NnNum} {o i : Nat} {pf : PFromBody} (c : UInt8) (hb : b[i]? = some c)
-    (hI : NnInv mv b m0 o i pf) (hg : pf.state = .paramValEnd ∨ pf.state = .possibleValEnd) :
-    nnStepOk mv b m0 o (naStepVE h b i c pf) := by
+theorem nr_stepVE (h : Nat) {b : Buf} {m0 : NrNum} {o i : Nat} {pf : PFromBody} (c : UInt8) (hb : b[i]? = some c)
+    (hI : NrInv mv b m0 o i pf) (hg : pf.state = .paramValEnd ∨ pf.state = .possibleValEnd) :
+    nrStepOk mv b m0 o (naStepVE h b i c pf) := by
   have hib := get?_lt hb
   have hI' := hI
-  have hC := nn_commaAfterWS h hI hib pf.vend (by rcases hg with g | g <;> simp [g])
+  have hC := nr_commaAfterWS h hI hib pf.vend (by rcases hg with g | g <;> simp [g])
   obtain ⟨h1, h2, h3, h4, h5, h6⟩ := hI
   unfold naStepVE
-  rcases hg with g | g <;> simp only [nnPend, nnGapM, nnEqM, g] at h5 <;> simp +decide only [g, Bool.false_eq_true, ↓reduceIte] <;> repeat' split
+  rcases hg with g | g <;> simp only [nrPend, nrGapM, nrEqM, g] at h5 <;> simp +decide only [g, Bool.false_eq_true, ↓reduceIte] <;> repeat' split
   all_goals first
     | exact hC
-    | exact nn_ok_err hI'.out (by decide)
-    | (refine nn_ok_cont (nn_sfp_val _ h1 hib ?_ ?_ ?_ ?_ ?_ ?_ h6 (by first | exact Or.inl rfl | exact Or.inr rfl)) <;>
-         first | omega | (dsimp only; omega) | (dsimp only; simp only [h5]; done))
-    | (refine nn_ok_cont ?_; nn_close g h5 h6)
+    | exact nr_ok_err hI'.out (by decide)
+    | (refine nr_ok_cont (nr_sfp_val _ h1 hib ?_ ?_ ?_ ?_ ?_ ?_ h6 (by first | exact Or.inl rfl | exact Or.inr rfl)) <;>
+         first | omega | (dsimp only; omega) | (dsimp only; simp only [nrGapM, h5]; done))
+    | (refine nr_ok_cont ?_; nr_close g h5 h6)
 
-/-- **every step of the loop body**: a continuing step and a MoreBytes exit keep the invariant, every exit satisfies `NnOut` -/
-theorem nn_step (h : Nat) {b : Buf} {m0 : NnNum} {o i : Nat} {pf : PFromBody} (c : UInt8) (hb : b[i]? = some c)
-    (hI : NnInv mv b m0 o i pf) : nnStepOk mv b m0 o (naStep h b i c pf) := by
+/-- **every step of the loop body**: a continuing step and a MoreBytes exit keep the invariant, every exit satisfies `NrOut` -/
+theorem nr_step (h : Nat) {b : Buf} {m0 : NrNum} {o i : Nat} {pf : PFromBody} (c : UInt8) (hb : b[i]? = some c)
+    (hI : NrInv (multipleValsOk h) b m0 o i pf) : nrStepOk (multipleValsOk h) b m0 o (naStep h b i c pf) := by
   have hib := get?_lt hb
   unfold naStep
   cases hst : pf.state <;> simp only
   all_goals first
-    | exact nn_stepA h c hb hI (by simp only [hst]; decide)
-    | exact nn_stepQ h c hb hI (by simp only [hst]; decide)
-    | exact nn_stepU c hb hI hst
-    | exact nn_stepUF h c hb hI hst
-    | exact nn_stepP h c hb hI (by simp only [hst]; decide)
-    | exact nn_stepPE h c hb hI (by simp only [hst]; decide)
-    | exact nn_stepV h c hb hI (by simp only [hst]; decide)
-    | exact nn_stepVE h c hb hI (by simp only [hst]; decide)
-    | exact nn_stepStar h c hI hst
-    | exact nn_ok_cont (hI.mono (by omega) (by omega) (by simp [nnAtPos, hst]))
+    | exact nr_stepA h c hb hI (by simp only [hst]; decide)
+    | exact nr_stepQ h c hb hI (by simp only [hst]; decide)
+    | exact nr_stepU c hb hI hst
+    | exact nr_stepUF h c hb hI hst
+    | exact nr_stepP h c hb rfl hI (by simp only [hst]; decide)
+    | exact nr_stepPE h c hb hI (by simp only [hst]; decide)
+    | exact nr_stepV h c hb rfl hI (by simp only [hst]; decide)
+    | exact nr_stepVE h c hb hI (by simp only [hst]; decide)
+    | exact nr_stepStar h c hI hst
+    | exact nr_ok_cont (hI.mono (by omega) (by omega) (by simp [nrAtPos, hst]))
 
 /-! ### the loop and ParseNameAddrPVal -/
 
-theorem nn_runLoop (h : Nat) (b : Buf) (m0 : NnNum) (o i : Nat) (pf : PFromBody) (hI : NnInv mv b m0 o i pf) :
-    NnOut mv b m0 o (runLoop (naMachine h) b i pf).1 (runLoop (naMachine h) b i pf).2.2 ∧
+theorem nr_runLoop (h : Nat) (b : Buf) (m0 : NrNum) (o i : Nat) (pf : PFromBody) (hI : NrInv (multipleValsOk h) b m0 o i pf) :
+    NrOut (multipleValsOk h) b m0 o (runLoop (naMachine h) b i pf).1 (runLoop (naMachine h) b i pf).2.2 ∧
     ((runLoop (naMachine h) b i pf).2.1 = .moreBytes →
-      NnInv mv b m0 o (runLoop (naMachine h) b i pf).1 (runLoop (naMachine h) b i pf).2.2) := by
-  refine runLoop_inv (naMachine h) b (NnInv mv b m0 o)
-    (fun r => NnOut mv b m0 o r.1 r.2.2 ∧ (r.2.1 = .moreBytes → NnInv mv b m0 o r.1 r.2.2)) ?_ ?_ ?_ i pf hI
+      NrInv (multipleValsOk h) b m0 o (runLoop (naMachine h) b i pf).1 (runLoop (naMachine h) b i pf).2.2) := by
+  refine runLoop_inv (naMachine h) b (NrInv (multipleValsOk h) b m0 o)
+    (fun r => NrOut (multipleValsOk h) b m0 o r.1 r.2.2 ∧ (r.2.1 = .moreBytes → NrInv (multipleValsOk h) b m0 o r.1 r.2.2)) ?_ ?_ ?_ i pf hI
   · intro i c st i' st' hb hP hs
-    have hk := nn_step h c hb hP
+    have hk := nr_step h c hb hP
     change naStep h b i c st = .cont i' st' at hs
     rw [hs] at hk
     exact ⟨fun _ => hk, fun hn => absurd (na_progress h b i c st i' st' hb hs) hn⟩
   · intro i c st o1 e1 st1 hb hP hs
-    have hk := nn_step h c hb hP
+    have hk := nr_step h c hb hP
     change naStep h b i c st = .done o1 e1 st1 at hs
     rw [hs] at hk
     exact hk
@@ -845,20 +875,20 @@ theorem nn_runLoop (h : Nat) (b : Buf) (m0 : NnNum) (o i : Nat) (pf : PFromBody)
     exact ⟨hP.saveS.out, fun _ => hP.saveS⟩
 
 /-- **ParseNameAddrPVal, any header kind, any buffer, any verdict**: if the object passed in satisfies the invariant
-    (a new object does, `nn_entry_new`; so does an object returned with MoreBytes), the numeric fields of the returned
-    object are the fold of `nnEffect` over a list of parameter spans lying in `[o, o')`; after MoreBytes the object
+    (a new object does, `nr_entry_new`; so does an object returned with MoreBytes), the numeric fields of the returned
+    object are the fold of `nrEffect` over a list of parameter spans lying in `[o, o')`; after MoreBytes the object
     satisfies the invariant again. -/
-theorem nn_parse (h : Nat) (b : Buf) (m0 : NnNum) (o offs : Nat) (pf : PFromBody) (hE : NnInv mv b m0 o offs pf)
+theorem nr_parse (h : Nat) (b : Buf) (m0 : NrNum) (o offs : Nat) (pf : PFromBody) (hE : NrInv (multipleValsOk h) b m0 o offs pf)
     {o' : Nat} {e : Err} {pf' : PFromBody} (hr : parseNameAddrPVal h b offs pf = (o', e, pf')) :
-    NnOut mv b m0 o o' pf' ∧ (e = .moreBytes → NnInv mv b m0 o o' pf') := by
+    NrOut (multipleValsOk h) b m0 o o' pf' ∧ (e = .moreBytes → NrInv (multipleValsOk h) b m0 o o' pf') := by
   unfold parseNameAddrPVal at hr
   split at hr
   · cases hr
     exact ⟨hE.out, fun hh => by cases hh⟩
   · simp only [Prod.mk.injEq] at hr
     obtain ⟨rfl, rfl, rfl⟩ := hr
-    have key := nn_runLoop h b m0 o offs { pf with s := pf.soffs, soffs := 0 } (hE.congr rfl rfl rfl rfl rfl rfl)
-    have hx : ∀ (e : Err) (p : PFromBody), (naExit pf.soffs e p).nnNum = p.nnNum ∧ (naExit pf.soffs e p).state = p.state ∧
+    have key := nr_runLoop h b m0 o offs { pf with s := pf.soffs, soffs := 0 } (hE.congr rfl rfl rfl rfl rfl rfl)
+    have hx : ∀ (e : Err) (p : PFromBody), (naExit pf.soffs e p).nrNum = p.nrNum ∧ (naExit pf.soffs e p).state = p.state ∧
         (naExit pf.soffs e p).pstart = p.pstart ∧ (naExit pf.soffs e p).pend = p.pend ∧
         (naExit pf.soffs e p).vstart = p.vstart ∧ (naExit pf.soffs e p).vend = p.vend := by
       intro e p; unfold naExit; split <;> exact ⟨rfl, rfl, rfl, rfl, rfl, rfl⟩
@@ -867,66 +897,66 @@ theorem nn_parse (h : Nat) (b : Buf) (m0 : NnNum) (o offs : Nat) (pf : PFromBody
     exact ⟨key.1.congr x1, fun hm => (key.2 hm).congr x2 x3 x4 x5 x6 x1⟩
 
 /-- a new object may be passed at any offset inside the buffer -/
-theorem nn_entry_new (b : Buf) (o : Nat) (ho : o ≤ b.size) : NnInv mv b {} o o {} :=
+theorem nr_entry_new (b : Buf) (o : Nat) (ho : o ≤ b.size) : NrInv mv b {} o o {} :=
   ⟨Nat.le_refl _, ho, Nat.zero_le _, Nat.zero_le _, ⟨Nat.le_refl _, rfl⟩, ⟨[], rfl, fun x hx => by cases hx⟩⟩
 
 /-! ### E. what the fold says about `expires` -/
 
 /-- the span is an `expires` parameter (name in any letter case) with a non-empty value text -/
-def nnIsExp (b : Buf) (x : PSpan) : Prop :=
+def nrIsExp (b : Buf) (x : PSpan) : Prop :=
   x.ps < x.pe ∧ x.vs < x.ve ∧ cmpEqL (b.extract x.ps x.pe) sExpires = true
 
-theorem nn_effect_exp_set (b : Buf) (x : PSpan) (m : NnNum) (hx : nnIsExp b x) :
-    nnEffect b x.ps x.pe x.vs x.ve m =
-      { m with hasExpires := true, expires := min (decOf (nnDigPre (b.extract x.vs x.ve).toList)) 4294967295 } := by
-  unfold nnEffect
+theorem nr_effect_exp_set (b : Buf) (x : PSpan) (m : NrNum) (hx : nrIsExp b x) :
+    nrEffect b x.ps x.pe x.vs x.ve m =
+      { m with hasExpires := true, expires := min (decOf (nrDigPre (b.extract x.vs x.ve).toList)) 4294967295 } := by
+  unfold nrEffect
   rw [if_pos ⟨hx.1, hx.2.1⟩, if_pos hx.2.2]
 
-theorem nn_setQ_keep (m : NnNum) (vs ve : Nat) (val : List UInt8) :
-    (nnSetQ m vs ve val).hasExpires = m.hasExpires ∧ (nnSetQ m vs ve val).expires = m.expires := by
-  obtain ⟨_, _, o3, o4⟩ := setQ_other (nnOfNum m vs ve) val
+theorem nr_setQ_keep (m : NrNum) (vs ve : Nat) (val : List UInt8) :
+    (nrSetQ m vs ve val).hasExpires = m.hasExpires ∧ (nrSetQ m vs ve val).expires = m.expires := by
+  obtain ⟨_, _, o3, o4⟩ := setQ_other (nrOfNum m vs ve) val
   exact ⟨o3, o4⟩
 
-theorem nn_effect_exp_keep (b : Buf) (x : PSpan) (m : NnNum) (hx : ¬ nnIsExp b x) :
-    (nnEffect b x.ps x.pe x.vs x.ve m).hasExpires = m.hasExpires ∧ (nnEffect b x.ps x.pe x.vs x.ve m).expires = m.expires := by
-  unfold nnEffect
+theorem nr_effect_exp_keep (b : Buf) (x : PSpan) (m : NrNum) (hx : ¬ nrIsExp b x) :
+    (nrEffect b x.ps x.pe x.vs x.ve m).hasExpires = m.hasExpires ∧ (nrEffect b x.ps x.pe x.vs x.ve m).expires = m.expires := by
+  unfold nrEffect
   split
   · rename_i hc
     split
     · rename_i hn; exact absurd ⟨hc.1, hc.2, hn⟩ hx
     · split
-      · exact nn_setQ_keep m _ _ _
+      · exact nr_setQ_keep m _ _ _
       · exact ⟨rfl, rfl⟩
   · split <;> exact ⟨rfl, rfl⟩
 
 /-- no `expires` parameter among the spans: the two fields keep their initial values -/
-theorem nn_all_exp_none (b : Buf) (L : List PSpan) (m0 : NnNum) (hn : ∀ x ∈ L, ¬ nnIsExp b x) :
-    (nnAll b L m0).hasExpires = m0.hasExpires ∧ (nnAll b L m0).expires = m0.expires := by
+theorem nr_all_exp_none (b : Buf) (L : List PSpan) (m0 : NrNum) (hn : ∀ x ∈ L, ¬ nrIsExp b x) :
+    (nrAll b L m0).hasExpires = m0.hasExpires ∧ (nrAll b L m0).expires = m0.expires := by
   induction L generalizing m0 with
   | nil => exact ⟨rfl, rfl⟩
   | cons x L ih =>
-    have h1 := nn_effect_exp_keep b x m0 (hn x List.mem_cons_self)
-    have h2 := ih (nnEffect b x.ps x.pe x.vs x.ve m0) (fun y hy => hn y (List.mem_cons_of_mem _ hy))
+    have h1 := nr_effect_exp_keep b x m0 (hn x List.mem_cons_self)
+    have h2 := ih (nrEffect b x.ps x.pe x.vs x.ve m0) (fun y hy => hn y (List.mem_cons_of_mem _ hy))
     exact ⟨h2.1.trans h1.1, h2.2.trans h1.2⟩
 
-theorem nn_all_append (b : Buf) (L1 L2 : List PSpan) (m : NnNum) : nnAll b (L1 ++ L2) m = nnAll b L2 (nnAll b L1 m) := by
-  unfold nnAll; rw [List.foldl_append]
+theorem nr_all_append (b : Buf) (L1 L2 : List PSpan) (m : NrNum) : nrAll b (L1 ++ L2) m = nrAll b L2 (nrAll b L1 m) := by
+  unfold nrAll; rw [List.foldl_append]
 
-theorem nn_all_cons (b : Buf) (x : PSpan) (L : List PSpan) (m : NnNum) :
-    nnAll b (x :: L) m = nnAll b L (nnEffect b x.ps x.pe x.vs x.ve m) := rfl
+theorem nr_all_cons (b : Buf) (x : PSpan) (L : List PSpan) (m : NrNum) :
+    nrAll b (x :: L) m = nrAll b L (nrEffect b x.ps x.pe x.vs x.ve m) := rfl
 
 /-- the last `expires` parameter among the spans decides -/
-theorem nn_all_exp_last (b : Buf) (L1 L2 : List PSpan) (x : PSpan) (m0 : NnNum) (hx : nnIsExp b x)
-    (hn : ∀ y ∈ L2, ¬ nnIsExp b y) :
-    (nnAll b (L1 ++ x :: L2) m0).hasExpires = true ∧
-    (nnAll b (L1 ++ x :: L2) m0).expires = min (decOf (nnDigPre (b.extract x.vs x.ve).toList)) 4294967295 := by
-  have h2 := nn_all_exp_none b L2 (nnEffect b x.ps x.pe x.vs x.ve (nnAll b L1 m0)) hn
-  rw [nn_all_append, nn_all_cons]
-  rw [nn_effect_exp_set b x _ hx] at h2 ⊢
+theorem nr_all_exp_last (b : Buf) (L1 L2 : List PSpan) (x : PSpan) (m0 : NrNum) (hx : nrIsExp b x)
+    (hn : ∀ y ∈ L2, ¬ nrIsExp b y) :
+    (nrAll b (L1 ++ x :: L2) m0).hasExpires = true ∧
+    (nrAll b (L1 ++ x :: L2) m0).expires = min (decOf (nrDigPre (b.extract x.vs x.ve).toList)) 4294967295 := by
+  have h2 := nr_all_exp_none b L2 (nrEffect b x.ps x.pe x.vs x.ve (nrAll b L1 m0)) hn
+  rw [nr_all_append, nr_all_cons]
+  rw [nr_effect_exp_set b x _ hx] at h2 ⊢
   exact ⟨h2.1, h2.2⟩
 
 /-- a list of spans either has no `expires` parameter or splits at its last one -/
-theorem nn_split_last (P : PSpan → Prop) (L : List PSpan) :
+theorem nr_split_last (P : PSpan → Prop) (L : List PSpan) :
     (∀ x ∈ L, ¬ P x) ∨ ∃ L1 x L2, L = L1 ++ x :: L2 ∧ P x ∧ ∀ y ∈ L2, ¬ P y := by
   induction L with
   | nil => exact Or.inl (fun x hx => by cases hx)
@@ -940,41 +970,42 @@ theorem nn_split_last (P : PSpan → Prop) (L : List PSpan) :
         · exact ih x hx
     · exact Or.inr ⟨a :: L1, x, L2, by rw [h1]; rfl, h2, h3⟩
 
-/-- **(a) `expires` at run level**, for every object satisfying `NnOut` (= every object returned by ParseNameAddrPVal
+/-- **(a) `expires` at run level**, for every object satisfying `NrOut` (= every object returned by ParseNameAddrPVal
     started from an object whose `HasExpires` was false): if `HasExpires` is reported, then there is an `expires`
     parameter in the consumed text — name `[ps, pe)` matched case-insensitively, followed by a non-empty value text
     `[vs, ve)` — and `Expires` is the decimal value of the LEADING DIGITS of that text, saturated at 2^32-1 (digit
     strings of any length); when the text consists of digits only it is `min (value) (2^32-1)`.  If `HasExpires` is
     not reported, `Expires` still has its initial value. -/
-theorem NnOut.expires {b : Buf} {m0 : NnNum} {o lim : Nat} {pf : PFromBody} (hO : NnOut mv b m0 o lim pf)
+theorem NrOut.expires {b : Buf} {m0 : NrNum} {o lim : Nat} {pf : PFromBody} (hO : NrOut mv b m0 o lim pf)
     (h0 : m0.hasExpires = false) :
     (pf.hasExpires = false ∧ pf.expires = m0.expires) ∨
     (pf.hasExpires = true ∧ ∃ ps pe vs ve, o ≤ ps ∧ ps < pe ∧ pe < vs ∧ vs < ve ∧ ve ≤ lim ∧ lim ≤ b.size ∧
-      cmpEqL (b.extract ps pe) sExpires = true ∧
-      pf.expires = min (decOf (nnDigPre (b.extract vs ve).toList)) 4294967295 ∧
+      nrGapM mv b pe vs ∧ cmpEqL (b.extract ps pe) sExpires = true ∧
+      pf.expires = min (decOf (nrDigPre (b.extract vs ve).toList)) 4294967295 ∧
       (AllDigits (b.extract vs ve).toList → pf.expires = min (decOf (b.extract vs ve).toList) 4294967295)) := by
   obtain ⟨hlim, L, hacc, hL⟩ := hO
-  have e1 : pf.hasExpires = (nnAll b L m0).hasExpires := congrArg NnNum.hasExpires hacc
-  have e2 : pf.expires = (nnAll b L m0).expires := congrArg NnNum.expires hacc
-  rcases nn_split_last (nnIsExp b) L with hn | ⟨L1, x, L2, hsp, hx, hn⟩
-  · have := nn_all_exp_none b L m0 hn
+  have e1 : pf.hasExpires = (nrAll b L m0).hasExpires := congrArg NrNum.hasExpires hacc
+  have e2 : pf.expires = (nrAll b L m0).expires := congrArg NrNum.expires hacc
+  rcases nr_split_last (nrIsExp b) L with hn | ⟨L1, x, L2, hsp, hx, hn⟩
+  · have := nr_all_exp_none b L m0 hn
     exact Or.inl ⟨by rw [e1, this.1, h0], by rw [e2, this.2]⟩
-  · have hk := nn_all_exp_last b L1 L2 x m0 hx hn
+  · have hk := nr_all_exp_last b L1 L2 x m0 hx hn
     rw [← hsp] at hk
     have hxo := hL x (by rw [hsp]; exact List.mem_append_right _ List.mem_cons_self)
     obtain ⟨s1, s2, s3, s4⟩ := hxo
-    have hv : x.pe < x.vs ∧ x.vs < x.ve ∧ x.ve ≤ lim := by
+    have hv : x.pe < x.vs ∧ x.vs < x.ve ∧ x.ve ≤ lim ∧ nrGapM mv b x.pe x.vs := by
       rcases s4 with s4 | s4
       · have := hx.2.1; omega
       · exact s4
-    refine Or.inr ⟨by rw [e1, hk.1], x.ps, x.pe, x.vs, x.ve, s1, s2, hv.1, hv.2.1, hv.2.2, hlim, hx.2.2, by rw [e2, hk.2], ?_⟩
+    refine Or.inr ⟨by rw [e1, hk.1], x.ps, x.pe, x.vs, x.ve, s1, s2, hv.1, hv.2.1, hv.2.2.1, hlim, hv.2.2.2, hx.2.2,
+      by rw [e2, hk.2], ?_⟩
     intro hd
-    rw [e2, hk.2, nnDigPre_of_digits _ hd]
+    rw [e2, hk.2, nrDigPre_of_digits _ hd]
 
 /-! ### F. `q`: ANY value text -/
 
 /-- converse of `pUInt64Aux_spec`: the 64-bit parser reports no error only on digit strings, with the exact value -/
-theorem nn_pUInt64Aux_ok (l : List UInt8) (n : Nat) (e : Err) (m : Nat) (h : pUInt64Aux l n e = (m, .ok)) :
+theorem nr_pUInt64Aux_ok (l : List UInt8) (n : Nat) (e : Err) (m : Nat) (h : pUInt64Aux l n e = (m, .ok)) :
     e = .ok ∧ AllDigits l ∧ m = decFrom n l := by
   induction l generalizing n e with
   | nil =>
@@ -982,8 +1013,8 @@ theorem nn_pUInt64Aux_ok (l : List UInt8) (n : Nat) (e : Err) (m : Nat) (h : pUI
     cases h
     exact ⟨rfl, (fun c hc => by cases hc), by rw [decFrom_nil]⟩
   | cons c cs ih =>
-    by_cases hc : nnIsDig c = true
-    · have hd := (nnIsDig_iff c).1 hc
+    by_cases hc : nrIsDig c = true
+    · have hd := (nrIsDig_iff c).1 hc
       rw [pUInt64Aux_cons c cs n e hd] at h
       split at h
       · have := (ih _ _ h).1; cases this
@@ -996,16 +1027,16 @@ theorem nn_pUInt64Aux_ok (l : List UInt8) (n : Nat) (e : Err) (m : Nat) (h : pUI
     · have hc' : (c < 48 || c > 57) = true := by
         cases hx : (c < 48 || c > 57) with
         | true => rfl
-        | false => exact absurd (by unfold nnIsDig; rw [hx]; rfl) hc
+        | false => exact absurd (by unfold nrIsDig; rw [hx]; rfl) hc
       simp only [pUInt64Aux, hc', if_true] at h
       cases h
 
-theorem nn_pUInt64Val_ok (l : List UInt8) (m : Nat) (h : pUInt64Val l = (m, .ok)) : AllDigits l ∧ m = decOf l := by
-  have := nn_pUInt64Aux_ok l 0 .ok m h
+theorem nr_pUInt64Val_ok (l : List UInt8) (m : Nat) (h : pUInt64Val l = (m, .ok)) : AllDigits l ∧ m = decOf l := by
+  have := nr_pUInt64Aux_ok l 0 .ok m h
   exact ⟨this.2.1, this.2.2⟩
 
 /-- a text splits at its first `.` -/
-theorem nn_split_dot (val : List UInt8) :
+theorem nr_split_dot (val : List UInt8) :
     ((val.takeWhile (· != 46)).length = val.length ∧ val.take (val.takeWhile (· != 46)).length = val) ∨
     ((val.takeWhile (· != 46)).length < val.length ∧
       val = val.take (val.takeWhile (· != 46)).length ++ 46 :: val.drop ((val.takeWhile (· != 46)).length + 1)) := by
@@ -1026,7 +1057,7 @@ theorem nn_split_dot (val : List UInt8) :
 
 
 /-- `setQ` with the two conversions named -/
-theorem nn_setQ_eq (pf : PFromBody) (val : List UInt8) (u d : Nat) (e1 e2 : Err)
+theorem nr_setQ_eq (pf : PFromBody) (val : List UInt8) (u d : Nat) (e1 e2 : Err)
     (hu : pUInt64Val (val.take (val.takeWhile (· != 46)).length) = (u, e1))
     (hd : (if (e1 == .ok && decide ((val.takeWhile (· != 46)).length < val.length)) = true
             then pUInt64Val (val.drop ((val.takeWhile (· != 46)).length + 1)) else (0, e1)) = (d, e2)) :
@@ -1048,31 +1079,31 @@ theorem nn_setQ_eq (pf : PFromBody) (val : List UInt8) (u d : Nat) (e1 e2 : Err)
 /-- the texts accepted as a `q` value, with their value in thousandths: an integer part of digits (any number of
     leading zeros; may be empty) worth 0 or 1, optionally followed by `.` and at most three digits, which must be zeros
     when the integer part is 1 -/
-def NnQOk (val : List UInt8) (v : Nat) : Prop :=
+def NrQOk (val : List UInt8) (v : Nat) : Prop :=
   ∃ ip fp, AllDigits ip ∧ AllDigits fp ∧ fp.length ≤ 3 ∧ decOf ip ≤ 1 ∧ (decOf ip = 1 → decOf fp = 0) ∧
     ((val = ip ∧ fp = []) ∨ val = ip ++ 46 :: fp) ∧ v = qValue ip fp
 
-theorem nn_allDigits_nil : AllDigits [] := fun c hc => by cases hc
+theorem nr_allDigits_nil : AllDigits [] := fun c hc => by cases hc
 
-theorem nn_decOf_nil : decOf [] = 0 := by unfold decOf; rw [decFrom_nil]
+theorem nr_decOf_nil : decOf [] = 0 := by unfold decOf; rw [decFrom_nil]
 
-theorem nn_setQ_of_ok (pf : PFromBody) (val : List UInt8) (v : Nat) (h : NnQOk val v) : setQ pf val = { pf with q := v } := by
+theorem nr_setQ_of_ok (pf : PFromBody) (val : List UInt8) (v : Nat) (h : NrQOk val v) : setQ pf val = { pf with q := v } := by
   obtain ⟨ip, fp, hi, hf, hl, hu, hone, hsh, rfl⟩ := h
   rcases hsh with ⟨rfl, rfl⟩ | rfl
   · rw [setQ_int pf val hi hu]
-    have : qValue val [] = decOf val * 1000 := by unfold qValue; rw [nn_decOf_nil]; omega
+    have : qValue val [] = decOf val * 1000 := by unfold qValue; rw [nr_decOf_nil]; omega
     rw [this]
   · exact setQ_frac pf ip fp hi hf hl hu hone
 
 /-- **`setQ` on ANY text**: either the text is an accepted `q` value and `q` becomes exactly its value in thousandths,
     or `q` is left alone and the parameter error is set (to something other than "no error") -/
-theorem nn_setQ_cases (pf : PFromBody) (val : List UInt8) :
-    (∃ v, NnQOk val v ∧ setQ pf val = { pf with q := v }) ∨
+theorem nr_setQ_cases (pf : PFromBody) (val : List UInt8) :
+    (∃ v, NrQOk val v ∧ setQ pf val = { pf with q := v }) ∨
     (∃ e eo, e ≠ Err.ok ∧ setQ pf val = { pf with paramErr := e, errOffs := eo }) := by
   rcases hu : pUInt64Val (val.take (val.takeWhile (· != 46)).length) with ⟨u, e1⟩
   rcases hd : (if (e1 == .ok && decide ((val.takeWhile (· != 46)).length < val.length)) = true
             then pUInt64Val (val.drop ((val.takeWhile (· != 46)).length + 1)) else (0, e1)) with ⟨d, e2⟩
-  have hS := nn_setQ_eq pf val u d e1 e2 hu hd
+  have hS := nr_setQ_eq pf val u d e1 e2 hu hd
   by_cases hlen : val.length - (val.takeWhile (· != 46)).length ≤ 4
   · rw [if_pos hlen] at hS
     by_cases he2 : e2 = .ok
@@ -1098,21 +1129,21 @@ theorem nn_setQ_cases (pf : PFromBody) (val : List UInt8) :
             simp only [Bool.false_and, Bool.false_eq_true, if_false, Prod.mk.injEq] at hd
             exact hd.2
         subst e1ok
-        obtain ⟨hip, hu'⟩ := nn_pUInt64Val_ok _ _ hu
+        obtain ⟨hip, hu'⟩ := nr_pUInt64Val_ok _ _ hu
         left
-        rcases nn_split_dot val with ⟨hk, htk⟩ | ⟨hk, hsplit⟩
-        · have hOk : NnQOk val (qValue val []) := by
+        rcases nr_split_dot val with ⟨hk, htk⟩ | ⟨hk, hsplit⟩
+        · have hOk : NrQOk val (qValue val []) := by
             rw [htk] at hip hu'
-            exact ⟨val, [], hip, nn_allDigits_nil, by simp, by omega, (fun _ => nn_decOf_nil), Or.inl ⟨rfl, rfl⟩, rfl⟩
-          exact ⟨_, hOk, nn_setQ_of_ok pf val _ hOk⟩
+            exact ⟨val, [], hip, nr_allDigits_nil, by simp, by omega, (fun _ => nr_decOf_nil), Or.inl ⟨rfl, rfl⟩, rfl⟩
+          exact ⟨_, hOk, nr_setQ_of_ok pf val _ hOk⟩
         · have hc : (Err.ok == Err.ok && decide ((val.takeWhile (· != 46)).length < val.length)) = true := by simp [hk]
           rw [if_pos hc] at hd
-          obtain ⟨hfp, hd'⟩ := nn_pUInt64Val_ok _ _ hd
-          have hOk : NnQOk val (qValue (val.take (val.takeWhile (· != 46)).length)
+          obtain ⟨hfp, hd'⟩ := nr_pUInt64Val_ok _ _ hd
+          have hOk : NrQOk val (qValue (val.take (val.takeWhile (· != 46)).length)
               (val.drop ((val.takeWhile (· != 46)).length + 1))) :=
             ⟨_, _, hip, hfp, by rw [List.length_drop]; omega, by omega, (fun h1 => by rw [← hd']; exact hr2 (by omega)),
               Or.inr hsplit, rfl⟩
-          exact ⟨_, hOk, nn_setQ_of_ok pf val _ hOk⟩
+          exact ⟨_, hOk, nr_setQ_of_ok pf val _ hOk⟩
     · have : (e2 == Err.ok) = false := by simpa using he2
       rw [this] at hS
       simp only [Bool.false_eq_true, if_false] at hS
@@ -1121,62 +1152,62 @@ theorem nn_setQ_cases (pf : PFromBody) (val : List UInt8) :
     exact Or.inr ⟨.valTooLong, _, by decide, hS⟩
 
 
-theorem nn_qok_unique {val : List UInt8} {v v' : Nat} (h : NnQOk val v) (h' : NnQOk val v') : v = v' := by
-  have e1 := nn_setQ_of_ok {} val v h
-  have e2 := nn_setQ_of_ok {} val v' h'
+theorem nr_qok_unique {val : List UInt8} {v v' : Nat} (h : NrQOk val v) (h' : NrQOk val v') : v = v' := by
+  have e1 := nr_setQ_of_ok {} val v h
+  have e2 := nr_setQ_of_ok {} val v' h'
   rw [e1] at e2
   exact congrArg PFromBody.q e2
 
-theorem nn_nnSetQ_ok (m : NnNum) (vs ve : Nat) (val : List UInt8) (v : Nat) (h : NnQOk val v) :
-    nnSetQ m vs ve val = { m with q := v } := by
-  unfold nnSetQ
-  rw [nn_setQ_of_ok _ val v h]
+theorem nr_setQnum_ok (m : NrNum) (vs ve : Nat) (val : List UInt8) (v : Nat) (h : NrQOk val v) :
+    nrSetQ m vs ve val = { m with q := v } := by
+  unfold nrSetQ
+  rw [nr_setQ_of_ok _ val v h]
   rfl
 
-theorem nn_nnSetQ_bad (m : NnNum) (vs ve : Nat) (val : List UInt8) (h : ¬ ∃ v, NnQOk val v) :
-    ∃ e eo, e ≠ Err.ok ∧ nnSetQ m vs ve val = { m with paramErr := e, errOffs := eo } := by
-  rcases nn_setQ_cases (nnOfNum m vs ve) val with ⟨v, hv, _⟩ | ⟨e, eo, he, hs⟩
+theorem nr_setQnum_bad (m : NrNum) (vs ve : Nat) (val : List UInt8) (h : ¬ ∃ v, NrQOk val v) :
+    ∃ e eo, e ≠ Err.ok ∧ nrSetQ m vs ve val = { m with paramErr := e, errOffs := eo } := by
+  rcases nr_setQ_cases (nrOfNum m vs ve) val with ⟨v, hv, _⟩ | ⟨e, eo, he, hs⟩
   · exact absurd ⟨v, hv⟩ h
   · refine ⟨e, eo, he, ?_⟩
-    unfold nnSetQ
+    unfold nrSetQ
     rw [hs]
     rfl
 
 /-! ### G. what the fold says about `q` -/
 
 /-- the span is a `q` parameter (name in any letter case) with a non-empty value text -/
-def nnIsQ (b : Buf) (x : PSpan) : Prop :=
+def nrIsQ (b : Buf) (x : PSpan) : Prop :=
   x.ps < x.pe ∧ x.vs < x.ve ∧ cmpEqL (b.extract x.ps x.pe) sQ = true
 
 /-- … whose text is an accepted `q` value worth `v` thousandths -/
-def nnIsQGood (b : Buf) (x : PSpan) (v : Nat) : Prop := nnIsQ b x ∧ NnQOk (b.extract x.vs x.ve).toList v
+def nrIsQGood (b : Buf) (x : PSpan) (v : Nat) : Prop := nrIsQ b x ∧ NrQOk (b.extract x.vs x.ve).toList v
 
 /-- … whose text is not an accepted `q` value -/
-def nnIsQBad (b : Buf) (x : PSpan) : Prop := nnIsQ b x ∧ ¬ ∃ v, NnQOk (b.extract x.vs x.ve).toList v
+def nrIsQBad (b : Buf) (x : PSpan) : Prop := nrIsQ b x ∧ ¬ ∃ v, NrQOk (b.extract x.vs x.ve).toList v
 
-theorem nn_effect_q (b : Buf) (x : PSpan) (m : NnNum) (hx : nnIsQ b x) :
-    nnEffect b x.ps x.pe x.vs x.ve m = nnSetQ m x.vs x.ve (b.extract x.vs x.ve).toList := by
+theorem nr_effect_q (b : Buf) (x : PSpan) (m : NrNum) (hx : nrIsQ b x) :
+    nrEffect b x.ps x.pe x.vs x.ve m = nrSetQ m x.vs x.ve (b.extract x.vs x.ve).toList := by
   have hl := cmpEqL_len hx.2.2
   have t2 : cmpEqL (b.extract x.ps x.pe) sExpires = false := cmpEqL_false_of_len (by rw [hl]; decide)
-  unfold nnEffect
+  unfold nrEffect
   rw [if_pos ⟨hx.1, hx.2.1⟩, t2, if_neg (by decide), if_pos hx.2.2]
 
-theorem nn_effect_q_good (b : Buf) (x : PSpan) (m : NnNum) (v : Nat) (hx : nnIsQGood b x v) :
-    nnEffect b x.ps x.pe x.vs x.ve m = { m with q := v } := by
-  rw [nn_effect_q b x m hx.1, nn_nnSetQ_ok m _ _ _ v hx.2]
+theorem nr_effect_q_good (b : Buf) (x : PSpan) (m : NrNum) (v : Nat) (hx : nrIsQGood b x v) :
+    nrEffect b x.ps x.pe x.vs x.ve m = { m with q := v } := by
+  rw [nr_effect_q b x m hx.1, nr_setQnum_ok m _ _ _ v hx.2]
 
-theorem nn_effect_q_bad (b : Buf) (x : PSpan) (m : NnNum) (hx : nnIsQBad b x) :
-    ∃ e eo, e ≠ Err.ok ∧ nnEffect b x.ps x.pe x.vs x.ve m = { m with paramErr := e, errOffs := eo } := by
-  rw [nn_effect_q b x m hx.1]
-  exact nn_nnSetQ_bad m _ _ _ hx.2
+theorem nr_effect_q_bad (b : Buf) (x : PSpan) (m : NrNum) (hx : nrIsQBad b x) :
+    ∃ e eo, e ≠ Err.ok ∧ nrEffect b x.ps x.pe x.vs x.ve m = { m with paramErr := e, errOffs := eo } := by
+  rw [nr_effect_q b x m hx.1]
+  exact nr_setQnum_bad m _ _ _ hx.2
 
 /-- a span that is not a `q` parameter with an accepted text leaves `q` alone -/
-theorem nn_effect_q_keep (b : Buf) (x : PSpan) (m : NnNum) (hx : ¬ ∃ v, nnIsQGood b x v) :
-    (nnEffect b x.ps x.pe x.vs x.ve m).q = m.q := by
-  by_cases hq : nnIsQ b x
-  · obtain ⟨e, eo, _, hs⟩ := nn_effect_q_bad b x m ⟨hq, fun ⟨v, hv⟩ => hx ⟨v, hq, hv⟩⟩
+theorem nr_effect_q_keep (b : Buf) (x : PSpan) (m : NrNum) (hx : ¬ ∃ v, nrIsQGood b x v) :
+    (nrEffect b x.ps x.pe x.vs x.ve m).q = m.q := by
+  by_cases hq : nrIsQ b x
+  · obtain ⟨e, eo, _, hs⟩ := nr_effect_q_bad b x m ⟨hq, fun ⟨v, hv⟩ => hx ⟨v, hq, hv⟩⟩
     rw [hs]
-  · unfold nnEffect
+  · unfold nrEffect
     split
     · rename_i hc
       split
@@ -1187,15 +1218,15 @@ theorem nn_effect_q_keep (b : Buf) (x : PSpan) (m : NnNum) (hx : ¬ ∃ v, nnIsQ
     · split <;> rfl
 
 /-- the parameter error, once set, stays set -/
-theorem nn_effect_perr (b : Buf) (x : PSpan) (m : NnNum) (hm : m.paramErr ≠ .ok) :
-    (nnEffect b x.ps x.pe x.vs x.ve m).paramErr ≠ .ok := by
-  by_cases hq : nnIsQ b x
-  · by_cases hg : ∃ v, NnQOk (b.extract x.vs x.ve).toList v
+theorem nr_effect_perr (b : Buf) (x : PSpan) (m : NrNum) (hm : m.paramErr ≠ .ok) :
+    (nrEffect b x.ps x.pe x.vs x.ve m).paramErr ≠ .ok := by
+  by_cases hq : nrIsQ b x
+  · by_cases hg : ∃ v, NrQOk (b.extract x.vs x.ve).toList v
     · obtain ⟨v, hv⟩ := hg
-      rw [nn_effect_q_good b x m v ⟨hq, hv⟩]; exact hm
-    · obtain ⟨e, eo, he, hs⟩ := nn_effect_q_bad b x m ⟨hq, hg⟩
+      rw [nr_effect_q_good b x m v ⟨hq, hv⟩]; exact hm
+    · obtain ⟨e, eo, he, hs⟩ := nr_effect_q_bad b x m ⟨hq, hg⟩
       rw [hs]; exact he
-  · unfold nnEffect
+  · unfold nrEffect
     split
     · rename_i hc
       split
@@ -1207,43 +1238,43 @@ theorem nn_effect_perr (b : Buf) (x : PSpan) (m : NnNum) (hm : m.paramErr ≠ .o
       · exact hm
       · exact (by decide : Err.valBad ≠ Err.ok)
 
-theorem nn_all_perr (b : Buf) (L : List PSpan) (m : NnNum) (hm : m.paramErr ≠ .ok) : (nnAll b L m).paramErr ≠ .ok := by
+theorem nr_all_perr (b : Buf) (L : List PSpan) (m : NrNum) (hm : m.paramErr ≠ .ok) : (nrAll b L m).paramErr ≠ .ok := by
   induction L generalizing m with
   | nil => exact hm
-  | cons x L ih => rw [nn_all_cons]; exact ih _ (nn_effect_perr b x m hm)
+  | cons x L ih => rw [nr_all_cons]; exact ih _ (nr_effect_perr b x m hm)
 
 /-- no `q` parameter with an accepted text among the spans: `q` keeps its initial value -/
-theorem nn_all_q_none (b : Buf) (L : List PSpan) (m0 : NnNum) (hn : ∀ x ∈ L, ¬ ∃ v, nnIsQGood b x v) :
-    (nnAll b L m0).q = m0.q := by
+theorem nr_all_q_none (b : Buf) (L : List PSpan) (m0 : NrNum) (hn : ∀ x ∈ L, ¬ ∃ v, nrIsQGood b x v) :
+    (nrAll b L m0).q = m0.q := by
   induction L generalizing m0 with
   | nil => rfl
   | cons x L ih =>
-    rw [nn_all_cons, ih _ (fun y hy => hn y (List.mem_cons_of_mem _ hy))]
-    exact nn_effect_q_keep b x m0 (hn x List.mem_cons_self)
+    rw [nr_all_cons, ih _ (fun y hy => hn y (List.mem_cons_of_mem _ hy))]
+    exact nr_effect_q_keep b x m0 (hn x List.mem_cons_self)
 
 /-- the last `q` parameter with an accepted text decides, and `q` is exactly its value -/
-theorem nn_all_q_last (b : Buf) (L1 L2 : List PSpan) (x : PSpan) (v : Nat) (m0 : NnNum) (hx : nnIsQGood b x v)
-    (hn : ∀ y ∈ L2, ¬ ∃ v, nnIsQGood b y v) : (nnAll b (L1 ++ x :: L2) m0).q = v := by
-  rw [nn_all_append, nn_all_cons, nn_all_q_none b L2 _ hn, nn_effect_q_good b x _ v hx]
+theorem nr_all_q_last (b : Buf) (L1 L2 : List PSpan) (x : PSpan) (v : Nat) (m0 : NrNum) (hx : nrIsQGood b x v)
+    (hn : ∀ y ∈ L2, ¬ ∃ v, nrIsQGood b y v) : (nrAll b (L1 ++ x :: L2) m0).q = v := by
+  rw [nr_all_append, nr_all_cons, nr_all_q_none b L2 _ hn, nr_effect_q_good b x _ v hx]
 
 /-- a `q` parameter whose text is not accepted is flagged: the parameter error is set at the end -/
-theorem nn_all_q_bad (b : Buf) (L : List PSpan) (m0 : NnNum) (x : PSpan) (hx : x ∈ L) (hb : nnIsQBad b x) :
-    (nnAll b L m0).paramErr ≠ .ok := by
+theorem nr_all_q_bad (b : Buf) (L : List PSpan) (m0 : NrNum) (x : PSpan) (hx : x ∈ L) (hb : nrIsQBad b x) :
+    (nrAll b L m0).paramErr ≠ .ok := by
   obtain ⟨L1, L2, rfl⟩ := List.append_of_mem hx
-  rw [nn_all_append, nn_all_cons]
-  apply nn_all_perr
-  obtain ⟨e, eo, he, hs⟩ := nn_effect_q_bad b x (nnAll b L1 m0) hb
+  rw [nr_all_append, nr_all_cons]
+  apply nr_all_perr
+  obtain ⟨e, eo, he, hs⟩ := nr_effect_q_bad b x (nrAll b L1 m0) hb
   rw [hs]; exact he
 
 /-- a well-located span that is not a `q` parameter with a rejected text leaves the parameter error alone -/
-theorem nn_effect_perr_keep (b : Buf) (x : PSpan) (m : NnNum) {o lim : Nat} (hs : NnSpanOk mv b o lim x) (hx : ¬ nnIsQBad b x) :
-    (nnEffect b x.ps x.pe x.vs x.ve m).paramErr = m.paramErr := by
-  by_cases hq : nnIsQ b x
-  · by_cases hg : ∃ v, NnQOk (b.extract x.vs x.ve).toList v
+theorem nr_effect_perr_keep (b : Buf) (x : PSpan) (m : NrNum) {o lim : Nat} (hs : NrSpanOk mv b o lim x) (hx : ¬ nrIsQBad b x) :
+    (nrEffect b x.ps x.pe x.vs x.ve m).paramErr = m.paramErr := by
+  by_cases hq : nrIsQ b x
+  · by_cases hg : ∃ v, NrQOk (b.extract x.vs x.ve).toList v
     · obtain ⟨v, hv⟩ := hg
-      rw [nn_effect_q_good b x m v ⟨hq, hv⟩]
+      rw [nr_effect_q_good b x m v ⟨hq, hv⟩]
     · exact absurd ⟨hq, hg⟩ hx
-  · unfold nnEffect
+  · unfold nrEffect
     split
     · rename_i hc
       split
@@ -1261,94 +1292,111 @@ theorem nn_effect_perr_keep (b : Buf) (x : PSpan) (m : NnNum) {o lim : Nat} (hs 
         · exact absurd ⟨s2, s4.2.1⟩ hc
 
 /-- the parameter error is set only because of a `q` parameter with a rejected text -/
-theorem nn_all_perr_keep (b : Buf) (L : List PSpan) (m0 : NnNum) {o lim : Nat} (hs : ∀ x ∈ L, NnSpanOk mv b o lim x)
-    (hn : ∀ x ∈ L, ¬ nnIsQBad b x) : (nnAll b L m0).paramErr = m0.paramErr := by
+theorem nr_all_perr_keep (b : Buf) (L : List PSpan) (m0 : NrNum) {o lim : Nat} (hs : ∀ x ∈ L, NrSpanOk mv b o lim x)
+    (hn : ∀ x ∈ L, ¬ nrIsQBad b x) : (nrAll b L m0).paramErr = m0.paramErr := by
   induction L generalizing m0 with
   | nil => rfl
   | cons x L ih =>
-    rw [nn_all_cons, ih _ (fun y hy => hs y (List.mem_cons_of_mem _ hy)) (fun y hy => hn y (List.mem_cons_of_mem _ hy))]
-    exact nn_effect_perr_keep b x m0 (hs x List.mem_cons_self) (hn x List.mem_cons_self)
+    rw [nr_all_cons, ih _ (fun y hy => hs y (List.mem_cons_of_mem _ hy)) (fun y hy => hn y (List.mem_cons_of_mem _ hy))]
+    exact nr_effect_perr_keep b x m0 (hs x List.mem_cons_self) (hn x List.mem_cons_self)
 
-/-- **(b) `q` at run level**, for every object satisfying `NnOut`: `Q` either still has its initial value, or it is
+/-- **(b) `q` at run level**, for every object satisfying `NrOut`: `Q` either still has its initial value, or it is
     EXACTLY the value in thousandths of the text of a `q` parameter of the consumed input whose text has an accepted
     shape; never a wrapped or truncated number. -/
-theorem NnOut.q {b : Buf} {m0 : NnNum} {o lim : Nat} {pf : PFromBody} (hO : NnOut mv b m0 o lim pf) :
+theorem NrOut.q {b : Buf} {m0 : NrNum} {o lim : Nat} {pf : PFromBody} (hO : NrOut mv b m0 o lim pf) :
     pf.q = m0.q ∨
-    ∃ ps pe vs ve, o ≤ ps ∧ ps < pe ∧ pe < vs ∧ vs < ve ∧ ve ≤ lim ∧ lim ≤ b.size ∧
-      cmpEqL (b.extract ps pe) sQ = true ∧ NnQOk (b.extract vs ve).toList pf.q := by
+    ∃ ps pe vs ve, o ≤ ps ∧ ps < pe ∧ pe < vs ∧ vs < ve ∧ ve ≤ lim ∧ lim ≤ b.size ∧ nrGapM mv b pe vs ∧
+      cmpEqL (b.extract ps pe) sQ = true ∧ NrQOk (b.extract vs ve).toList pf.q := by
   obtain ⟨hlim, L, hacc, hL⟩ := hO
-  have e1 : pf.q = (nnAll b L m0).q := congrArg NnNum.q hacc
-  rcases nn_split_last (fun x => ∃ v, nnIsQGood b x v) L with hn | ⟨L1, x, L2, hsp, ⟨v, hx⟩, hn⟩
-  · exact Or.inl (by rw [e1, nn_all_q_none b L m0 hn])
-  · have hk := nn_all_q_last b L1 L2 x v m0 hx hn
+  have e1 : pf.q = (nrAll b L m0).q := congrArg NrNum.q hacc
+  rcases nr_split_last (fun x => ∃ v, nrIsQGood b x v) L with hn | ⟨L1, x, L2, hsp, ⟨v, hx⟩, hn⟩
+  · exact Or.inl (by rw [e1, nr_all_q_none b L m0 hn])
+  · have hk := nr_all_q_last b L1 L2 x v m0 hx hn
     rw [← hsp] at hk
     obtain ⟨s1, s2, s3, s4⟩ := hL x (by rw [hsp]; exact List.mem_append_right _ List.mem_cons_self)
-    have hv : x.pe < x.vs ∧ x.vs < x.ve ∧ x.ve ≤ lim := by
+    have hv : x.pe < x.vs ∧ x.vs < x.ve ∧ x.ve ≤ lim ∧ nrGapM mv b x.pe x.vs := by
       rcases s4 with s4 | s4
       · have := hx.1.2.1; omega
       · exact s4
-    refine Or.inr ⟨x.ps, x.pe, x.vs, x.ve, s1, s2, hv.1, hv.2.1, hv.2.2, hlim, hx.1.2.2, ?_⟩
+    refine Or.inr ⟨x.ps, x.pe, x.vs, x.ve, s1, s2, hv.1, hv.2.1, hv.2.2.1, hlim, hv.2.2.2, hx.1.2.2, ?_⟩
     rw [e1, hk]; exact hx.2
 
-/-- **(b), the flag**: the recorded spans `L` can be chosen such that, besides `NnOut`, (1) `Q` is the value of the last
+/-- **(b), the flag**: the recorded spans `L` can be chosen such that, besides `NrOut`, (1) `Q` is the value of the last
     `q` parameter of `L` with an accepted text (initial value if there is none), (2) if some `q` parameter of `L` has a
     rejected text then `ParamErr` is set, and (3) if no `q` parameter of `L` has a rejected text `ParamErr` has its
     initial value. -/
-theorem NnOut.q_flag {b : Buf} {m0 : NnNum} {o lim : Nat} {pf : PFromBody} (hO : NnOut mv b m0 o lim pf) :
-    ∃ L : List PSpan, pf.nnNum = nnAll b L m0 ∧ (∀ x ∈ L, NnSpanOk mv b o lim x) ∧
-      (((∀ x ∈ L, ¬ ∃ v, nnIsQGood b x v) ∧ pf.q = m0.q) ∨
-        ∃ L1 x L2, L = L1 ++ x :: L2 ∧ nnIsQGood b x pf.q ∧ ∀ y ∈ L2, ¬ ∃ v, nnIsQGood b y v) ∧
-      ((∃ x ∈ L, nnIsQBad b x) → pf.paramErr ≠ .ok) ∧
-      ((∀ x ∈ L, ¬ nnIsQBad b x) → pf.paramErr = m0.paramErr) := by
+theorem NrOut.q_flag {b : Buf} {m0 : NrNum} {o lim : Nat} {pf : PFromBody} (hO : NrOut mv b m0 o lim pf) :
+    ∃ L : List PSpan, pf.nrNum = nrAll b L m0 ∧ (∀ x ∈ L, NrSpanOk mv b o lim x) ∧
+      (((∀ x ∈ L, ¬ ∃ v, nrIsQGood b x v) ∧ pf.q = m0.q) ∨
+        ∃ L1 x L2, L = L1 ++ x :: L2 ∧ nrIsQGood b x pf.q ∧ ∀ y ∈ L2, ¬ ∃ v, nrIsQGood b y v) ∧
+      ((∃ x ∈ L, nrIsQBad b x) → pf.paramErr ≠ .ok) ∧
+      ((∀ x ∈ L, ¬ nrIsQBad b x) → pf.paramErr = m0.paramErr) := by
   obtain ⟨hlim, L, hacc, hL⟩ := hO
-  have e1 : pf.q = (nnAll b L m0).q := congrArg NnNum.q hacc
-  have e2 : pf.paramErr = (nnAll b L m0).paramErr := congrArg NnNum.paramErr hacc
+  have e1 : pf.q = (nrAll b L m0).q := congrArg NrNum.q hacc
+  have e2 : pf.paramErr = (nrAll b L m0).paramErr := congrArg NrNum.paramErr hacc
   refine ⟨L, hacc, hL, ?_, ?_, ?_⟩
-  · rcases nn_split_last (fun x => ∃ v, nnIsQGood b x v) L with hn | ⟨L1, x, L2, hsp, ⟨v, hx⟩, hn⟩
-    · exact Or.inl ⟨hn, by rw [e1, nn_all_q_none b L m0 hn]⟩
-    · have hk := nn_all_q_last b L1 L2 x v m0 hx hn
+  · rcases nr_split_last (fun x => ∃ v, nrIsQGood b x v) L with hn | ⟨L1, x, L2, hsp, ⟨v, hx⟩, hn⟩
+    · exact Or.inl ⟨hn, by rw [e1, nr_all_q_none b L m0 hn]⟩
+    · have hk := nr_all_q_last b L1 L2 x v m0 hx hn
       rw [← hsp] at hk
       exact Or.inr ⟨L1, x, L2, hsp, by rw [e1, hk]; exact hx, hn⟩
   · rintro ⟨x, hx, hb⟩
-    rw [e2]; exact nn_all_q_bad b L m0 x hx hb
+    rw [e2]; exact nr_all_q_bad b L m0 x hx hb
   · intro hn
-    rw [e2]; exact nn_all_perr_keep b L m0 hL hn
+    rw [e2]; exact nr_all_perr_keep b L m0 hL hn
 
 /-! ### H. more bytes: the invariant survives the extension of the buffer -/
 
-theorem nn_effect_app (b s : Buf) (x : PSpan) (m : NnNum) {o lim : Nat} (hx : NnSpanOk mv b o lim x) (hlim : lim ≤ b.size) :
-    nnEffect (b ++ s) x.ps x.pe x.vs x.ve m = nnEffect b x.ps x.pe x.vs x.ve m := by
+theorem nr_effect_app (b s : Buf) (x : PSpan) (m : NrNum) {o lim : Nat} (hx : NrSpanOk mv b o lim x) (hlim : lim ≤ b.size) :
+    nrEffect (b ++ s) x.ps x.pe x.vs x.ve m = nrEffect b x.ps x.pe x.vs x.ve m := by
   obtain ⟨_, s2, s3, s4⟩ := hx
-  unfold nnEffect
+  unfold nrEffect
   by_cases c1 : x.ps < x.pe ∧ x.vs < x.ve
   · have hve : x.ve ≤ b.size := by
       rcases s4 with s4 | s4
       · have := c1.2; omega
-      · have := s4.2.2; omega
+      · have := s4.2.2.1; omega
     rw [if_pos c1, if_pos c1, extract_app b s x.ps x.pe (by omega), extract_app b s x.vs x.ve hve]
   · rw [if_neg c1, if_neg c1]
 
-theorem nn_all_app (b s : Buf) (L : List PSpan) (m : NnNum) {o lim : Nat} (hL : ∀ x ∈ L, NnSpanOk mv b o lim x)
-    (hlim : lim ≤ b.size) : nnAll (b ++ s) L m = nnAll b L m := by
+theorem nr_all_app (b s : Buf) (L : List PSpan) (m : NrNum) {o lim : Nat} (hL : ∀ x ∈ L, NrSpanOk mv b o lim x)
+    (hlim : lim ≤ b.size) : nrAll (b ++ s) L m = nrAll b L m := by
   induction L generalizing m with
   | nil => rfl
   | cons x L ih =>
-    rw [nn_all_cons, nn_all_cons, nn_effect_app b s x m (hL x List.mem_cons_self) hlim]
+    rw [nr_all_cons, nr_all_cons, nr_effect_app b s x m (hL x List.mem_cons_self) hlim]
     exact ih _ (fun y hy => hL y (List.mem_cons_of_mem _ hy))
 
-theorem NnInv.app {b : Buf} {m0 : NnNum} {o i : Nat} {pf : PFromBody} (h : NnInv mv b m0 o i pf) (s : Buf) :
-    NnInv mv (b ++ s) m0 o i pf := by
+theorem NrSpanOk.app {b : Buf} {o lim : Nat} {x : PSpan} (h : NrSpanOk mv b o lim x) (s : Buf) :
+    NrSpanOk mv (b ++ s) o lim x := by
+  obtain ⟨h1, h2, h3, h4⟩ := h
+  refine ⟨h1, h2, h3, ?_⟩
+  rcases h4 with h4 | h4
+  · exact Or.inl h4
+  · exact Or.inr ⟨h4.1, h4.2.1, h4.2.2.1, h4.2.2.2.app s⟩
+
+theorem nrPend_app {b : Buf} {o i : Nat} {st : FBState} {ps pe vs ve : Nat} (h : nrPend mv b o i st ps pe vs ve) (s : Buf) :
+    nrPend mv (b ++ s) o i st ps pe vs ve := by
+  cases st <;> simp only [nrPend] at h ⊢ <;>
+    first
+      | exact h
+      | exact ⟨h.1, h.2.1, h.2.2.1, nr_run_app h.2.2.2 s⟩
+      | exact ⟨h.1, h.2.1, h.2.2.1, h.2.2.2.1, h.2.2.2.2.1, h.2.2.2.2.2.app s⟩
+      | exact ⟨h.1, h.2.1, h.2.2.1, h.2.2.2.1, h.2.2.2.2.app s⟩
+
+theorem NrInv.app {b : Buf} {m0 : NrNum} {o i : Nat} {pf : PFromBody} (h : NrInv mv b m0 o i pf) (s : Buf) :
+    NrInv mv (b ++ s) m0 o i pf := by
   obtain ⟨h1, h2, h3, h4, h5, L, h6, h7⟩ := h
-  refine ⟨h1, by rw [Array.size_append]; omega, h3, h4, h5, L, ?_, h7⟩
-  rw [nn_all_app b s L m0 h7 h2]; exact h6
+  refine ⟨h1, by rw [Array.size_append]; omega, h3, h4, nrPend_app h5 s, L, ?_, fun x hx => (h7 x hx).app s⟩
+  rw [nr_all_app b s L m0 h7 h2]; exact h6
 
 /-- **resumed call**: a call that asked for more bytes, followed by a call on the extended buffer from the returned
     offset with the returned object (and so on: the hypothesis of the second call is the conclusion of the first) -/
-theorem nn_parse_resume (h : Nat) (b s : Buf) (m0 : NnNum) (o offs : Nat) (pf : PFromBody) (hE : NnInv mv b m0 o offs pf)
+theorem nr_parse_resume (h : Nat) (b s : Buf) (m0 : NrNum) (o offs : Nat) (pf : PFromBody) (hE : NrInv (multipleValsOk h) b m0 o offs pf)
     {o1 : Nat} {pf1 : PFromBody} (hr1 : parseNameAddrPVal h b offs pf = (o1, .moreBytes, pf1))
     {o' : Nat} {e : Err} {pf' : PFromBody} (hr2 : parseNameAddrPVal h (b ++ s) o1 pf1 = (o', e, pf')) :
-    NnOut mv (b ++ s) m0 o o' pf' ∧ (e = .moreBytes → NnInv mv (b ++ s) m0 o o' pf') :=
-  nn_parse h (b ++ s) m0 o o1 pf1 (((nn_parse h b m0 o offs pf hE hr1).2 rfl).app s) hr2
+    NrOut (multipleValsOk h) (b ++ s) m0 o o' pf' ∧ (e = .moreBytes → NrInv (multipleValsOk h) (b ++ s) m0 o o' pf') :=
+  nr_parse h (b ++ s) m0 o o1 pf1 (((nr_parse h b m0 o offs pf hE hr1).2 rfl).app s) hr2
 
 /-! ### I. ParseNameAddrPVal on a new object (any header kind; `parseOneContact` is the Contact instance) -/
 
@@ -1356,27 +1404,27 @@ theorem nn_parse_resume (h : Nat) (b s : Buf) (m0 : NnNum) (o offs : Nat) (pf : 
     consumed text `[offs, o')` contains an `expires` parameter — name `[ps, pe)` matched case-insensitively, non-empty
     value text `[vs, ve)` after it — and then `Expires` is the decimal value of the leading digits of that text (all of
     it when the text is a digit string, of ANY length), saturated at 2^32-1; never a wrapped value. -/
-theorem nn_new_expires (h : Nat) (b : Buf) (offs : Nat) (ho : offs ≤ b.size)
+theorem nr_new_expires (h : Nat) (b : Buf) (offs : Nat) (ho : offs ≤ b.size)
     {o' : Nat} {e : Err} {pf' : PFromBody} (hr : parseNameAddrPVal h b offs {} = (o', e, pf')) :
     (pf'.hasExpires = false ∧ pf'.expires = 0) ∨
     (pf'.hasExpires = true ∧ ∃ ps pe vs ve, offs ≤ ps ∧ ps < pe ∧ pe < vs ∧ vs < ve ∧ ve ≤ o' ∧ o' ≤ b.size ∧
-      cmpEqL (b.extract ps pe) sExpires = true ∧
-      pf'.expires = min (decOf (nnDigPre (b.extract vs ve).toList)) 4294967295 ∧
+      nrGapM (multipleValsOk h) b pe vs ∧ cmpEqL (b.extract ps pe) sExpires = true ∧
+      pf'.expires = min (decOf (nrDigPre (b.extract vs ve).toList)) 4294967295 ∧
       (AllDigits (b.extract vs ve).toList → pf'.expires = min (decOf (b.extract vs ve).toList) 4294967295)) :=
-  (nn_parse h b {} offs offs {} (nn_entry_new b offs ho) hr).1.expires rfl
+  (nr_parse h b {} offs offs {} (nr_entry_new b offs ho) hr).1.expires rfl
 
 /-- **C10 (b), run level, one call on a new object**: `Q` is 0 (never set) or EXACTLY the value in thousandths of the
-    text of a `q` parameter of the consumed input, the text being of an accepted shape (`NnQOk`) -/
-theorem nn_new_q (h : Nat) (b : Buf) (offs : Nat) (ho : offs ≤ b.size)
+    text of a `q` parameter of the consumed input, the text being of an accepted shape (`NrQOk`) -/
+theorem nr_new_q (h : Nat) (b : Buf) (offs : Nat) (ho : offs ≤ b.size)
     {o' : Nat} {e : Err} {pf' : PFromBody} (hr : parseNameAddrPVal h b offs {} = (o', e, pf')) :
     pf'.q = 0 ∨
     ∃ ps pe vs ve, offs ≤ ps ∧ ps < pe ∧ pe < vs ∧ vs < ve ∧ ve ≤ o' ∧ o' ≤ b.size ∧
-      cmpEqL (b.extract ps pe) sQ = true ∧ NnQOk (b.extract vs ve).toList pf'.q :=
-  (nn_parse h b {} offs offs {} (nn_entry_new b offs ho) hr).1.q
+      nrGapM (multipleValsOk h) b pe vs ∧ cmpEqL (b.extract ps pe) sQ = true ∧ NrQOk (b.extract vs ve).toList pf'.q :=
+  (nr_parse h b {} offs offs {} (nr_entry_new b offs ho) hr).1.q
 
-theorem nn_frac_le (fp : List UInt8) (hf : AllDigits fp) (hl : fp.length ≤ 3) : decOf fp * 10 ^ (3 - fp.length) ≤ 999 := by
+theorem nr_frac_le (fp : List UInt8) (hf : AllDigits fp) (hl : fp.length ≤ 3) : decOf fp * 10 ^ (3 - fp.length) ≤ 999 := by
   match fp, hf, hl with
-  | [], _, _ => rw [nn_decOf_nil]; simp
+  | [], _, _ => rw [nr_decOf_nil]; simp
   | [a], hf, _ =>
     have ha := dval_le a (hf a (by simp))
     have : decOf [a] = dval a := by unfold decOf; rw [decFrom_cons, decFrom_nil]; omega
@@ -1395,9 +1443,9 @@ theorem nn_frac_le (fp : List UInt8) (hf : AllDigits fp) (hl : fp.length ≤ 3) 
     omega
 
 /-- the accepted shapes never give more than 1000 -/
-theorem nn_qok_le {val : List UInt8} {v : Nat} (h : NnQOk val v) : v ≤ 1000 := by
+theorem nr_qok_le {val : List UInt8} {v : Nat} (h : NrQOk val v) : v ≤ 1000 := by
   obtain ⟨ip, fp, hi, hf, hl, hu, hone, _, rfl⟩ := h
-  have hd := nn_frac_le fp hf hl
+  have hd := nr_frac_le fp hf hl
   unfold qValue
   rcases Nat.lt_or_ge (decOf ip) 1 with h0 | h1
   · have : decOf ip = 0 := by omega
@@ -1405,16 +1453,64 @@ theorem nn_qok_le {val : List UInt8} {v : Nat} (h : NnQOk val v) : v ≤ 1000 :=
   · have h1' : decOf ip = 1 := by omega
     rw [h1', hone h1']; omega
 
-theorem nn_new_q_le (h : Nat) (b : Buf) (offs : Nat) (ho : offs ≤ b.size)
+theorem nr_new_q_le (h : Nat) (b : Buf) (offs : Nat) (ho : offs ≤ b.size)
     {o' : Nat} {e : Err} {pf' : PFromBody} (hr : parseNameAddrPVal h b offs {} = (o', e, pf')) : pf'.q ≤ 1000 := by
-  rcases nn_new_q h b offs ho hr with h0 | ⟨_, _, _, _, _, _, _, _, _, _, _, hq⟩
+  rcases nr_new_q h b offs ho hr with h0 | ⟨_, _, _, _, _, _, _, _, _, _, _, _, hq⟩
   · rw [h0]; omega
-  · exact nn_qok_le hq
+  · exact nr_qok_le hq
+
+/-! ### Contact -/
+
+theorem nr_mv_contact : multipleValsOk HdrContact = true := by decide +kernel
+
+/-- **C10 (a) for one Contact value** (one call of `parseOneContact` = ParseNameAddrPVal(HdrContact, …) on a new
+    object, any buffer, any offset inside it, any verdict — in particular OK and MoreValues): if `HasExpires` is
+    reported there are offsets `offs ≤ ps < pe ≤ eq < vs < ve ≤ o' ≤ len(buf)` such that `buf[ps:pe]` is `expires` in
+    any letter case, `buf[pe:eq]` and `buf[eq+1:vs]` are white space, `buf[eq]` is `=`, and `Expires` is the decimal
+    value of the leading digits of `buf[vs:ve]` saturated at 2^32-1 — of all of `buf[vs:ve]` when it consists of
+    digits, whatever their number; otherwise `Expires` is 0. -/
+theorem nr_contact_expires (b : Buf) (offs : Nat) (ho : offs ≤ b.size)
+    {o' : Nat} {e : Err} {pf' : PFromBody} (hr : parseOneContact b offs {} = (o', e, pf')) :
+    (pf'.hasExpires = false ∧ pf'.expires = 0) ∨
+    (pf'.hasExpires = true ∧ ∃ ps pe vs ve, offs ≤ ps ∧ ps < pe ∧ pe < vs ∧ vs < ve ∧ ve ≤ o' ∧ o' ≤ b.size ∧
+      NrGap b pe vs ∧ cmpEqL (b.extract ps pe) sExpires = true ∧
+      pf'.expires = min (decOf (nrDigPre (b.extract vs ve).toList)) 4294967295 ∧
+      (AllDigits (b.extract vs ve).toList → pf'.expires = min (decOf (b.extract vs ve).toList) 4294967295)) := by
+  have h := nr_new_expires HdrContact b offs ho hr
+  rw [nr_mv_contact] at h
+  exact h
+
+/-- **C10 (b) for one Contact value**: `Q` is 0 (never set) or exactly the value in thousandths of the text of a `q`
+    parameter (located as in `nr_contact_expires`) whose text has an accepted shape; in particular `Q ≤ 1000`. -/
+theorem nr_contact_q (b : Buf) (offs : Nat) (ho : offs ≤ b.size)
+    {o' : Nat} {e : Err} {pf' : PFromBody} (hr : parseOneContact b offs {} = (o', e, pf')) :
+    pf'.q ≤ 1000 ∧
+    (pf'.q = 0 ∨
+      ∃ ps pe vs ve, offs ≤ ps ∧ ps < pe ∧ pe < vs ∧ vs < ve ∧ ve ≤ o' ∧ o' ≤ b.size ∧
+        NrGap b pe vs ∧ cmpEqL (b.extract ps pe) sQ = true ∧ NrQOk (b.extract vs ve).toList pf'.q) := by
+  have h := nr_new_q HdrContact b offs ho hr
+  rw [nr_mv_contact] at h
+  exact ⟨nr_new_q_le HdrContact b offs ho hr, h⟩
+
+/-- **C10 (b), the flag, for one Contact value**: there is a list `L` of parameter spans of the consumed text
+    (`NrSpanOk`), the numeric fields being the fold of `nrEffect` over it, such that `Q` is the value of the last `q`
+    parameter of `L` with an accepted text (0 if none), `ParamErr` is set when some `q` parameter of `L` has a rejected
+    text, and is not set otherwise. -/
+theorem nr_contact_q_flag (b : Buf) (offs : Nat) (ho : offs ≤ b.size)
+    {o' : Nat} {e : Err} {pf' : PFromBody} (hr : parseOneContact b offs {} = (o', e, pf')) :
+    ∃ L : List PSpan, pf'.nrNum = nrAll b L {} ∧ (∀ x ∈ L, NrSpanOk true b offs o' x) ∧
+      (((∀ x ∈ L, ¬ ∃ v, nrIsQGood b x v) ∧ pf'.q = 0) ∨
+        ∃ L1 x L2, L = L1 ++ x :: L2 ∧ nrIsQGood b x pf'.q ∧ ∀ y ∈ L2, ¬ ∃ v, nrIsQGood b y v) ∧
+      ((∃ x ∈ L, nrIsQBad b x) → pf'.paramErr ≠ .ok) ∧
+      ((∀ x ∈ L, ¬ nrIsQBad b x) → pf'.paramErr = .ok) := by
+  have h := (nr_parse HdrContact b {} offs offs {} (nr_entry_new b offs ho) hr).1.q_flag
+  rw [nr_mv_contact] at h
+  exact h
 
 /-! ### J. non-vacuity and tests (closed computations, `decide +kernel`) -/
 
-/-- non-vacuity of `NnQOk`: the text `0.5` is worth 500 thousandths -/
-example : NnQOk [48, 46, 53] 500 := by
+/-- non-vacuity of `NrQOk`: the text `0.5` is worth 500 thousandths -/
+example : NrQOk [48, 46, 53] 500 := by
   refine ⟨[48], [53], ?_, ?_, by decide, ?_, ?_, Or.inr rfl, ?_⟩
   · intro c hc; simp only [List.mem_cons, List.not_mem_nil, or_false] at hc; subst hc; unfold IsDigitB; decide
   · intro c hc; simp only [List.mem_cons, List.not_mem_nil, or_false] at hc; subst hc; unfold IsDigitB; decide
@@ -1432,7 +1528,7 @@ example : (parseOneContact "<sip:a@b>;expires=3600;q=0.5\r\nX".toUTF8.data 0 {})
 example : (parseOneContact "<sip:a@b>;EXPIRES=99999999999999999999999\r\nX".toUTF8.data 0 {}).2.2.expires = 4294967295 := by
   decide +kernel
 
-/-- test (the reason why `nn_new_expires` speaks of the LEADING DIGITS): `expires=12abc` is accepted, reported as set,
+/-- test (the reason why `nr_new_expires` speaks of the LEADING DIGITS): `expires=12abc` is accepted, reported as set,
     worth 12, and nothing is flagged; `expires=abc` is reported as set and worth 0.  (Same in the Go code.) -/
 example : (parseOneContact "<sip:a@b>;expires=12abc\r\nX".toUTF8.data 0 {}).2.1 = Err.ok ∧
     (parseOneContact "<sip:a@b>;expires=12abc\r\nX".toUTF8.data 0 {}).2.2.hasExpires = true ∧
@@ -1440,6 +1536,12 @@ example : (parseOneContact "<sip:a@b>;expires=12abc\r\nX".toUTF8.data 0 {}).2.1 
     (parseOneContact "<sip:a@b>;expires=12abc\r\nX".toUTF8.data 0 {}).2.2.paramErr = Err.ok ∧
     (parseOneContact "<sip:a@b>;expires=abc\r\nX".toUTF8.data 0 {}).2.2.hasExpires = true ∧
     (parseOneContact "<sip:a@b>;expires=abc\r\nX".toUTF8.data 0 {}).2.2.expires = 0 := by decide +kernel
+
+/-- test (why the gap claim is restricted to comma-separated header kinds): in From the commas in front of an
+    unquoted value are skipped -/
+example : (parseFromVal "<sip:a@b>;expires=,,5\r\nX".toUTF8.data 0 {}).2.1 = Err.ok ∧
+    (parseFromVal "<sip:a@b>;expires=,,5\r\nX".toUTF8.data 0 {}).2.2.expires = 5 ∧
+    (parseFromVal "<sip:a@b>;tag=,abc\r\nX".toUTF8.data 0 {}).2.2.tag = ⟨15, 3⟩ := by decide +kernel
 
 /-- test (accepted `q` shapes beyond `0[.ddd]` / `1[.000]`): empty integer part, leading zeros -/
 example : (parseOneContact "<sip:a@b>;q=.5\r\nX".toUTF8.data 0 {}).2.2.q = 500 ∧
